@@ -379,6 +379,771 @@ T('C04', 'twin-if-else', PK, "        if not sum(symkey) % 65536 == checksum:  #
   "        if sum(symkey) % 65536 == checksum:\n            pass\n        else:\n            raise PGPDecryptionError(\"{:s} decryption failed\".format(self.pkalg.name))\n")
 T('C04', 'twin-mdc-temp', PK, "        _expected_mdcbytes = b'\\xd3\\x14' + hashlib.new('SHA1', pt[:-20]).digest()", "        digest = hashlib.new('SHA1', pt[:-20]).digest()\n        _expected_mdcbytes = b'\\xd3' + b'\\x14' + digest")
 
+# ---- hardening round: behaviour-preserving refactorings the rules must not see, and mutants of every rewritten rule
+C04_SEIPD = """        pt = _decrypt(bytes(self.ct), bytes(key), alg)
+
+        # do the MDC checks
+        _expected_mdcbytes = b'\\xd3\\x14' + hashlib.new('SHA1', pt[:-20]).digest()
+        if not constant_time.bytes_eq(bytes(pt[-22:]), _expected_mdcbytes):
+            raise PGPDecryptionError("Decryption failed")  # pragma: no cover
+
+        iv = bytes(pt[:alg.block_size // 8])
+        del pt[:alg.block_size // 8]
+
+        ivl2 = bytes(pt[:2])
+        del pt[:2]
+
+        if not constant_time.bytes_eq(iv[-2:], ivl2):
+            raise PGPDecryptionError("Decryption failed")  # pragma: no cover
+
+        return pt
+"""
+T('C04', 'twin-seipd-rename-nodel', PK, C04_SEIPD, """        plaintext = _decrypt(bytes(self.ct), bytes(key), alg)
+        bs = alg.block_size // 8
+
+        digest = hashlib.new('SHA1', plaintext[:-20]).digest()
+        if not constant_time.bytes_eq(bytes(plaintext[-22:]), b'\\xd3\\x14' + digest):
+            raise PGPDecryptionError("Decryption failed")  # pragma: no cover
+
+        prefix = bytes(plaintext[:bs])
+        repeat = bytes(plaintext[bs:bs + 2])
+        if not constant_time.bytes_eq(prefix[-2:], repeat):
+            raise PGPDecryptionError("Decryption failed")  # pragma: no cover
+
+        return plaintext[bs + 2:]
+""")
+T('C04', 'twin-seipd-sha1-ctor', PK, "hashlib.new('SHA1', pt[:-20]).digest()\n        if not constant_time.bytes_eq(bytes(pt[-22:])", "hashlib.sha1(pt[:-20]).digest()\n        if not constant_time.bytes_eq(bytes(pt[-22:])")
+T('C04', 'twin-seipd-hash-update', PK, "        _expected_mdcbytes = b'\\xd3\\x14' + hashlib.new('SHA1', pt[:-20]).digest()",
+  "        mdc = hashlib.new('SHA1')\n        mdc.update(pt[:-22])\n        mdc.update(b'\\xd3\\x14')\n        _expected_mdcbytes = b'\\xd3\\x14' + mdc.digest()")
+T('C04', 'twin-seipd-split-mdc', PK, "        _expected_mdcbytes = b'\\xd3\\x14' + hashlib.new('SHA1', pt[:-20]).digest()\n        if not constant_time.bytes_eq(bytes(pt[-22:]), _expected_mdcbytes):\n            raise PGPDecryptionError(\"Decryption failed\")  # pragma: no cover\n",
+  "        if bytes(pt[-22:-20]) != b'\\xd3\\x14':\n            raise PGPDecryptionError(\"Decryption failed\")\n        if not constant_time.bytes_eq(bytes(pt[-20:]), hashlib.new('SHA1', pt[:-20]).digest()):\n            raise PGPDecryptionError(\"Decryption failed\")\n")
+T('C04', 'twin-seipd-combined-guard', PK, C04_SEIPD, """        pt = _decrypt(bytes(self.ct), bytes(key), alg)
+        bs = alg.block_size // 8
+        mdc_ok = constant_time.bytes_eq(bytes(pt[-22:]), b'\\xd3\\x14' + hashlib.new('SHA1', pt[:-20]).digest())
+        prefix_ok = constant_time.bytes_eq(bytes(pt[bs - 2:bs]), bytes(pt[bs:bs + 2]))
+        if not mdc_ok or not prefix_ok:
+            raise PGPDecryptionError("Decryption failed")
+        return pt[bs + 2:]
+""")
+T('C04', 'twin-seipd-demorgan-guard', PK, C04_SEIPD, """        pt = _decrypt(bytes(self.ct), bytes(key), alg)
+        bs = alg.block_size // 8
+        if not (constant_time.bytes_eq(bytes(pt[-22:]), b'\\xd3\\x14' + hashlib.new('SHA1', pt[:-20]).digest())
+                and constant_time.bytes_eq(bytes(pt[bs - 2:bs]), bytes(pt[bs:bs + 2]))):
+            raise PGPDecryptionError("Decryption failed")
+        return pt[bs + 2:]
+""")
+T('C04', 'twin-seipd-kw-decrypt', PK, "        pt = _decrypt(bytes(self.ct), bytes(key), alg)\n\n        # do the MDC checks", "        pt = _decrypt(ct=bytes(self.ct), key=bytes(key), alg=alg, iv=None)\n\n        # do the MDC checks")
+M('C04', 'seipd-combined-and', PK, C04_SEIPD, """        pt = _decrypt(bytes(self.ct), bytes(key), alg)
+        bs = alg.block_size // 8
+        mdc_ok = constant_time.bytes_eq(bytes(pt[-22:]), b'\\xd3\\x14' + hashlib.new('SHA1', pt[:-20]).digest())
+        prefix_ok = constant_time.bytes_eq(bytes(pt[bs - 2:bs]), bytes(pt[bs:bs + 2]))
+        if not mdc_ok and not prefix_ok:
+            raise PGPDecryptionError("Decryption failed")
+        return pt[bs + 2:]
+""", 'C04.1')
+M('C04', 'seipd-split-header-only', PK, "        _expected_mdcbytes = b'\\xd3\\x14' + hashlib.new('SHA1', pt[:-20]).digest()\n        if not constant_time.bytes_eq(bytes(pt[-22:]), _expected_mdcbytes):\n            raise PGPDecryptionError(\"Decryption failed\")  # pragma: no cover\n",
+  "        if bytes(pt[-22:-20]) != b'\\xd3\\x14':\n            raise PGPDecryptionError(\"Decryption failed\")\n", 'C04.1')
+M('C04', 'seipd-split-digest-only', PK, "        _expected_mdcbytes = b'\\xd3\\x14' + hashlib.new('SHA1', pt[:-20]).digest()\n        if not constant_time.bytes_eq(bytes(pt[-22:]), _expected_mdcbytes):\n            raise PGPDecryptionError(\"Decryption failed\")  # pragma: no cover\n",
+  "        if not constant_time.bytes_eq(bytes(pt[-20:]), hashlib.new('SHA1', pt[:-20]).digest()):\n            raise PGPDecryptionError(\"Decryption failed\")\n", 'C04.1')
+M('C04', 'ivcheck-compares-self', PK, "        if not constant_time.bytes_eq(iv[-2:], ivl2):\n            raise PGPDecryptionError(\"Decryption failed\")  # pragma: no cover\n\n        return pt\n", "        if not constant_time.bytes_eq(ivl2, ivl2):\n            raise PGPDecryptionError(\"Decryption failed\")  # pragma: no cover\n\n        return pt\n", 'C04.2')
+
+# ---------------------------------------------------------------- C04.3
+C04_PKSK = """        symalg = SymmetricKeyAlgorithm(m[0])
+        del m[0]
+
+        symkey = m[:symalg.key_size // 8]
+        del m[:symalg.key_size // 8]
+
+        checksum = self.bytes_to_int(m[:2])
+        del m[:2]
+
+        if not sum(symkey) % 65536 == checksum:  # pragma: no cover
+            raise PGPDecryptionError("{:s} decryption failed".format(self.pkalg.name))
+
+        return (symalg, symkey)
+"""
+T('C04', 'twin-pkesk-nodel', PK, C04_PKSK, """        cipher = SymmetricKeyAlgorithm(m[0])
+        klen = cipher.key_size // 8
+        sessionkey = m[1:1 + klen]
+        expected = int.from_bytes(m[1 + klen:3 + klen], 'big')
+        if (sum(sessionkey) & 0xFFFF) != expected:
+            raise PGPDecryptionError("{:s} decryption failed".format(self.pkalg.name))
+        return cipher, sessionkey
+""")
+T('C04', 'twin-pkesk-sum-bytearray', PK, "        if not sum(symkey) % 65536 == checksum:  # pragma: no cover", "        if checksum != sum(bytearray(symkey)) % 65536:  # pragma: no cover")
+M('C04', 'pkesk-returns-unchecked-key', PK, "        return (symalg, symkey)\n\n    def encrypt_sk(self, pk, symalg, symkey):", "        return (symalg, symkey + m)\n\n    def encrypt_sk(self, pk, symalg, symkey):", 'C04.3')
+
+# ---------------------------------------------------------------- C04.4
+C04_KB = """        if self.s2k.usage == 254 and not pt[-20:] == hashlib.new('sha1', pt[:-20]).digest():
+            # if the usage byte is 254, key material is followed by a 20-octet sha-1 hash of the rest
+            # of the key material block
+            raise PGPDecryptionError("Passphrase was incorrect!")
+
+        if self.s2k.usage == 255 and not self.bytes_to_int(pt[-2:]) == (sum(bytearray(pt[:-2])) % 65536):  # pragma: no cover
+            # if the usage byte is 255, key material is followed by a 2-octet checksum of the rest
+            # of the key material block
+            raise PGPDecryptionError("Passphrase was incorrect!")
+
+        return bytearray(pt)
+"""
+T('C04', 'twin-keyblob-nested', FL, C04_KB, """        usage = self.s2k.usage
+        if usage == 254:
+            body, digest = pt[:-20], pt[-20:]
+            if digest != hashlib.sha1(body).digest():
+                raise PGPDecryptionError("Passphrase was incorrect!")
+
+        elif usage == 255:
+            if self.bytes_to_int(pt[-2:]) != sum(bytearray(pt[:-2])) % 65536:
+                raise PGPDecryptionError("Passphrase was incorrect!")
+
+        return bytearray(pt)
+""")
+T('C04', 'twin-keyblob-rename-kw', FL, "        sessionkey = self.s2k.derive_key(passphrase)\n        del passphrase\n\n        # attempt to decrypt this key\n        pt = _decrypt(bytes(self.encbytes), bytes(sessionkey), self.s2k.encalg, bytes(self.s2k.iv))",
+  "        kek = self.s2k.derive_key(passphrase)\n        del passphrase\n\n        # attempt to decrypt this key\n        pt = _decrypt(bytes(self.encbytes), bytes(kek), alg=self.s2k.encalg, iv=bytes(self.s2k.iv))")
+M('C04', 'keyblob-sum-short-range', FL, "(sum(bytearray(pt[:-2])) % 65536):  # pragma: no cover", "(sum(bytearray(pt[:-4])) % 65536):  # pragma: no cover", 'C04.4')
+M('C04', 'keyblob-sha1-or', FL, "        if self.s2k.usage == 254 and not pt[-20:] == hashlib.new('sha1', pt[:-20]).digest():", "        if self.s2k.usage == 254 and not (pt[-20:] == hashlib.new('sha1', pt[:-20]).digest() or len(pt) > 20):", 'C04.4')
+
+# ---------------------------------------------------------------- C04.7
+C04_ECD = """        padder = PKCS7(64).unpadder()
+        return padder.update(_m) + padder.finalize()
+"""
+T('C04', 'twin-ecdh-temps', FL, C04_ECD, """        unpadder = PKCS7(block_size=64).unpadder()
+        head = unpadder.update(_m)
+        tail = unpadder.finalize()
+        return head + tail
+""")
+T('C04', 'twin-ecdh-join', FL, C04_ECD, """        unpadder = PKCS7(64).unpadder()
+        return b''.join([unpadder.update(_m), unpadder.finalize()])
+""")
+T('C04', 'twin-ecdh-unwrap-kw', FL, "        _m = aes_key_unwrap(z, self.c, default_backend())", "        _m = aes_key_unwrap(wrapped_key=self.c, wrapping_key=z, backend=default_backend())")
+M('C04', 'ecdh-lenient-padding', FL, C04_ECD, """        padder = PKCS7(64).unpadder()
+        try:
+            return padder.update(_m) + padder.finalize()
+        except ValueError:
+            return _m
+""", 'C04.7')
+C04_MSG_LOOP = """        for skesk in iter(sk for sk in self._sessionkeys if isinstance(sk, SKESessionKey)):
+            try:
+                symalg, key = skesk.decrypt_sk(passphrase)
+                decmsg = PGPMessage()
+                decmsg.parse(self.message.decrypt(key, symalg))
+
+            except (TypeError, ValueError, NotImplementedError, PGPDecryptionError):
+                continue
+
+            else:
+                del passphrase
+                break
+
+        else:
+            raise PGPDecryptionError("Decryption failed")
+
+        return decmsg
+"""
+T('C04', 'twin-msg-sentinel', PGP, C04_MSG_LOOP, """        result = None
+        for packet in self._sessionkeys:
+            if not isinstance(packet, SKESessionKey):
+                continue
+            try:
+                cipher, sessionkey = packet.decrypt_sk(passphrase)
+                candidate = PGPMessage()
+                candidate.parse(self.message.decrypt(sessionkey, cipher))
+            except (TypeError, ValueError, NotImplementedError, PGPDecryptionError):
+                continue
+            result = candidate
+            break
+
+        if result is None:
+            raise PGPDecryptionError("Decryption failed")
+
+        del passphrase
+        return result
+""")
+T('C04', 'twin-msg-return-in-loop', PGP, C04_MSG_LOOP, """        for skesk in [sk for sk in self._sessionkeys if isinstance(sk, SKESessionKey)]:
+            try:
+                res = skesk.decrypt_sk(passphrase)
+                decmsg = PGPMessage()
+                decmsg.parse(self.message.decrypt(key=res[1], alg=res[0]))
+
+            except (TypeError, ValueError, NotImplementedError, PGPDecryptionError) as exc:
+                continue
+
+            return decmsg
+
+        raise PGPDecryptionError("Decryption failed")
+""")
+T('C04', 'twin-msg-found-flag', PGP, C04_MSG_LOOP, """        found = False
+        decmsg = PGPMessage()
+        for skesk in filter(lambda sk: isinstance(sk, SKESessionKey), self._sessionkeys):
+            try:
+                symalg, key = skesk.decrypt_sk(passphrase)
+                decmsg.parse(self.message.decrypt(key, symalg))
+                found = True
+                break
+
+            except (TypeError, ValueError, NotImplementedError, PGPDecryptionError):
+                pass
+
+        if not found:
+            raise PGPDecryptionError("Decryption failed")
+
+        return decmsg
+""")
+T('C04', 'twin-msg-if-instance-body', PGP, C04_MSG_LOOP, """        for skesk in self._sessionkeys:
+            if isinstance(skesk, SKESessionKey):
+                try:
+                    symalg, key = skesk.decrypt_sk(passphrase)
+                    decmsg = PGPMessage()
+                    decmsg.parse(self.message.decrypt(key, symalg))
+
+                except (TypeError, ValueError, NotImplementedError, PGPDecryptionError):
+                    continue
+
+                else:
+                    break
+
+        else:
+            raise PGPDecryptionError("Decryption failed")
+
+        return decmsg
+""")
+T('C04', 'twin-msg-precondition-else', PGP, "        if not self.is_encrypted:\n            raise PGPError(\"This message is not encrypted!\")\n\n        for skesk in iter(", "        if self.is_encrypted:\n            pass\n        else:\n            raise PGPError(\"This message is not encrypted!\")\n\n        for skesk in iter(")
+T('C04', 'twin-msg-no-continue-sentinel', PGP, C04_MSG_LOOP, """        decmsg = None
+        for skesk in (sk for sk in self._sessionkeys if isinstance(sk, SKESessionKey)):
+            if decmsg is not None:
+                break
+            try:
+                symalg, key = skesk.decrypt_sk(passphrase)
+                attempt = PGPMessage()
+                attempt.parse(self.message.decrypt(key, symalg))
+                decmsg = attempt
+
+            except (TypeError, ValueError, NotImplementedError, PGPDecryptionError):
+                pass
+
+        if decmsg is None:
+            raise PGPDecryptionError("Decryption failed")
+
+        return decmsg
+""")
+M('C04', 'msg-sentinel-check-dropped', PGP, C04_MSG_LOOP, """        result = None
+        for packet in self._sessionkeys:
+            if not isinstance(packet, SKESessionKey):
+                continue
+            try:
+                cipher, sessionkey = packet.decrypt_sk(passphrase)
+                candidate = PGPMessage()
+                candidate.parse(self.message.decrypt(sessionkey, cipher))
+            except (TypeError, ValueError, NotImplementedError, PGPDecryptionError):
+                continue
+            result = candidate
+            break
+
+        del passphrase
+        return result
+""", 'C04.5')
+M('C04', 'msg-sentinel-assigned-early', PGP, C04_MSG_LOOP, """        result = None
+        for packet in self._sessionkeys:
+            if not isinstance(packet, SKESessionKey):
+                continue
+            try:
+                cipher, sessionkey = packet.decrypt_sk(passphrase)
+                result = PGPMessage()
+                result.parse(self.message.decrypt(sessionkey, cipher))
+            except (TypeError, ValueError, NotImplementedError, PGPDecryptionError):
+                continue
+            break
+
+        if result is None:
+            raise PGPDecryptionError("Decryption failed")
+
+        del passphrase
+        return result
+""", 'C04.5')
+M('C04', 'msg-found-flag-early', PGP, C04_MSG_LOOP, """        found = False
+        decmsg = PGPMessage()
+        for skesk in filter(lambda sk: isinstance(sk, SKESessionKey), self._sessionkeys):
+            try:
+                symalg, key = skesk.decrypt_sk(passphrase)
+                found = True
+                decmsg.parse(self.message.decrypt(key, symalg))
+                break
+
+            except (TypeError, ValueError, NotImplementedError, PGPDecryptionError):
+                pass
+
+        if not found:
+            raise PGPDecryptionError("Decryption failed")
+
+        return decmsg
+""", 'C04.5')
+M('C04', 'msg-filter-dropped', PGP, "        for skesk in iter(sk for sk in self._sessionkeys if isinstance(sk, SKESessionKey)):", "        for skesk in iter(sk for sk in self._sessionkeys):", 'C04.5')
+M('C04', 'msg-parse-error-swallowed', PGP, "                decmsg.parse(self.message.decrypt(key, symalg))\n\n            except (TypeError", "                try:\n                    decmsg.parse(self.message.decrypt(key, symalg))\n                except PGPDecryptionError:\n                    pass\n\n            except (TypeError", 'C04.5')
+M('C04', 'msg-handler-returns-self', PGP, "            except (TypeError, ValueError, NotImplementedError, PGPDecryptionError):\n                continue\n\n            else:\n                del passphrase", "            except (TypeError, ValueError, NotImplementedError):\n                continue\n\n            except PGPDecryptionError:\n                return self\n\n            else:\n                del passphrase", 'C04.5')
+M('C04', 'msg-precondition-dropped', PGP, "        if not self.is_encrypted:\n            raise PGPError(\"This message is not encrypted!\")\n\n        for skesk in iter(", "        for skesk in iter(", 'C04.5')
+M('C04', 'msg-precondition-returns-self', PGP, "        if not self.is_encrypted:\n            raise PGPError(\"This message is not encrypted!\")\n\n        for skesk in iter(", "        if not self.is_encrypted:\n            return self\n\n        for skesk in iter(", 'C04.5')
+M('C04', 'msg-finally-break', PGP, "            else:\n                del passphrase\n                break\n\n        else:\n            raise PGPDecryptionError(\"Decryption failed\")\n\n        return decmsg", "            finally:\n                break\n\n        else:\n            raise PGPDecryptionError(\"Decryption failed\")\n\n        return decmsg", 'C04.5',
+  more=[(PGP, "            except (TypeError, ValueError, NotImplementedError, PGPDecryptionError):\n                continue\n\n            finally", "            except (TypeError, ValueError, NotImplementedError, PGPDecryptionError):\n                decmsg = self\n\n            finally")])
+
+# ----------------------------------------------------------------------------- C04.6
+C04_KEY_BODY = """        if self.fingerprint.keyid not in message.encrypters:
+            sks = set(self.subkeys)
+            mis = set(message.encrypters)
+            if sks & mis:
+                skid = list(sks & mis)[0]
+                return self.subkeys[skid].decrypt(message)
+
+            raise PGPError("Cannot decrypt the provided message with this key")
+
+        pkesk = next(pk for pk in message._sessionkeys if isinstance(pk, PKESessionKey)
+                     and pk.pkalg == self.key_algorithm and pk.encrypter == self.fingerprint.keyid)
+        alg, key = pkesk.decrypt_sk(self._key)
+
+        # now that we have the symmetric cipher used and the key, we can decrypt the actual message
+        decmsg = PGPMessage()
+        decmsg.parse(message.message.decrypt(key, alg))
+
+        return decmsg
+"""
+T('C04', 'twin-key-mine-first', PGP, C04_KEY_BODY, """        mine = self.fingerprint.keyid
+        if mine in message.encrypters:
+            for candidate in message._sessionkeys:
+                if isinstance(candidate, PKESessionKey) and candidate.encrypter == mine and self.key_algorithm == candidate.pkalg:
+                    break
+            else:
+                raise PGPError("Cannot decrypt the provided message with this key")
+
+            cipher, sessionkey = candidate.decrypt_sk(pk=self._key)
+            plain = PGPMessage()
+            plain.parse(message.message.decrypt(alg=cipher, key=sessionkey))
+            return plain
+
+        shared = set(self.subkeys).intersection(message.encrypters)
+        if len(shared) > 0:
+            return self.subkeys[next(iter(shared))].decrypt(message)
+
+        raise PGPError("Cannot decrypt the provided message with this key")
+""")
+T('C04', 'twin-key-delegate-loop', PGP, "            if sks & mis:\n                skid = list(sks & mis)[0]\n                return self.subkeys[skid].decrypt(message)\n", "            for skid in sks & mis:\n                return self.subkeys[skid].decrypt(message)\n")
+T('C04', 'twin-key-isdisjoint', PGP, "            if sks & mis:\n                skid = list(sks & mis)[0]\n                return self.subkeys[skid].decrypt(message)\n\n            raise PGPError(\"Cannot decrypt the provided message with this key\")\n",
+  "            if sks.isdisjoint(mis):\n                raise PGPError(\"Cannot decrypt the provided message with this key\")\n\n            skid = sorted(sks & mis)[0]\n            return self.subkeys[skid].decrypt(message)\n")
+T('C04', 'twin-key-listcomp-common', PGP, "            sks = set(self.subkeys)\n            mis = set(message.encrypters)\n            if sks & mis:\n                skid = list(sks & mis)[0]\n                return self.subkeys[skid].decrypt(message)\n",
+  "            common = [kid for kid in self.subkeys if kid in message.encrypters]\n            if common:\n                return self.subkeys[common[0]].decrypt(message)\n")
+T('C04', 'twin-key-listcomp-select', PGP, "        pkesk = next(pk for pk in message._sessionkeys if isinstance(pk, PKESessionKey)\n                     and pk.pkalg == self.key_algorithm and pk.encrypter == self.fingerprint.keyid)\n        alg, key = pkesk.decrypt_sk(self._key)",
+  "        matching = [p for p in message._sessionkeys if isinstance(p, PKESessionKey) if self.fingerprint.keyid == p.encrypter and p.pkalg == self.key_algorithm]\n        alg, key = matching[0].decrypt_sk(self._key)")
+T('C04', 'twin-key-nested-filters', PGP, "        pkesk = next(pk for pk in message._sessionkeys if isinstance(pk, PKESessionKey)\n                     and pk.pkalg == self.key_algorithm and pk.encrypter == self.fingerprint.keyid)\n",
+  "        pkesks = (pk for pk in message._sessionkeys if isinstance(pk, PKESessionKey))\n        pkesk = next(pk for pk in pkesks if pk.pkalg == self.key_algorithm and pk.encrypter == self.fingerprint.keyid)\n")
+M('C04', 'key-delegate-any-subkey', PGP, "                skid = list(sks & mis)[0]", "                skid = list(sks)[0]", 'C04.6')
+M('C04', 'key-delegate-union', PGP, "            if sks & mis:\n                skid = list(sks & mis)[0]", "            if sks | mis:\n                skid = list(sks | mis)[0]", 'C04.6')
+M('C04', 'key-subkey-test-dropped', PGP, "            if sks & mis:\n", "            if sks:\n", 'C04.6')
+M('C04', 'key-selection-or', PGP, "                     and pk.pkalg == self.key_algorithm and pk.encrypter == self.fingerprint.keyid)", "                     and (pk.pkalg == self.key_algorithm or pk.encrypter == self.fingerprint.keyid))", 'C04.6')
+M('C04', 'key-selection-no-isinstance', PGP, "        pkesk = next(pk for pk in message._sessionkeys if isinstance(pk, PKESessionKey)\n                     and pk.pkalg", "        pkesk = next(pk for pk in message._sessionkeys if pk.pkalg", 'C04.6')
+M('C04', 'key-loop-select-no-else', PGP, C04_KEY_BODY, """        mine = self.fingerprint.keyid
+        if mine in message.encrypters:
+            for candidate in message._sessionkeys:
+                if isinstance(candidate, PKESessionKey) and candidate.encrypter == mine and self.key_algorithm == candidate.pkalg:
+                    break
+
+            cipher, sessionkey = candidate.decrypt_sk(pk=self._key)
+            plain = PGPMessage()
+            plain.parse(message.message.decrypt(alg=cipher, key=sessionkey))
+            return plain
+
+        shared = set(self.subkeys).intersection(message.encrypters)
+        if len(shared) > 0:
+            return self.subkeys[next(iter(shared))].decrypt(message)
+
+        raise PGPError("Cannot decrypt the provided message with this key")
+""", 'C04.6')
+M('C04', 'key-fallthrough-own', PGP, "                return self.subkeys[skid].decrypt(message)\n\n            raise PGPError(\"Cannot decrypt the provided message with this key\")\n", "                return self.subkeys[skid].decrypt(message)\n", 'C04.6')
+T('C04', 'twin-seipd-helper-const', PK, """        _expected_mdcbytes = b'\\xd3\\x14' + hashlib.new('SHA1', pt[:-20]).digest()
+        if not constant_time.bytes_eq(bytes(pt[-22:]), _expected_mdcbytes):
+            raise PGPDecryptionError("Decryption failed")  # pragma: no cover
+
+        iv = bytes(pt[:alg.block_size // 8])""", """        self._verify_mdc(pt)
+
+        iv = bytes(pt[:alg.block_size // 8])""",
+  more=[(PK, "class MDC(Packet):\n    \"\"\"\n    5.14.", "    _MDC_PREFIX = b'\\xd3\\x14'\n    _SHA1_LEN = 20\n\n    def _verify_mdc(self, plaintext):\n        trailer_len = len(self._MDC_PREFIX) + self._SHA1_LEN\n        expected = self._MDC_PREFIX + hashlib.new('SHA1', plaintext[:-self._SHA1_LEN]).digest()\n        if not constant_time.bytes_eq(bytes(plaintext[-trailer_len:]), expected):\n            raise PGPDecryptionError(\"Decryption failed\")\n\n\nclass MDC(Packet):\n    \"\"\"\n    5.14.")])
+T('C04', 'twin-pkesk-helper-shift', PK, "        if not sum(symkey) % 65536 == checksum:  # pragma: no cover", "        if self._checksum16(symkey) != checksum:  # pragma: no cover",
+  more=[(PK, "    def encrypt_sk(self, pk, symalg, symkey):\n        m = bytearray(self.int_to_bytes(symalg) + symkey)", "    @staticmethod\n    def _checksum16(octets):\n        return sum(octets) % (1 << 16)\n\n    def encrypt_sk(self, pk, symalg, symkey):\n        m = bytearray(self.int_to_bytes(symalg) + symkey)")])
+T('C04', 'twin-msg-closure', PGP, """            try:
+                symalg, key = skesk.decrypt_sk(passphrase)
+                decmsg = PGPMessage()
+                decmsg.parse(self.message.decrypt(key, symalg))
+
+            except (TypeError, ValueError, NotImplementedError, PGPDecryptionError):
+                continue
+""", """            try:
+                decmsg = attempt(skesk)
+
+            except (TypeError, ValueError, NotImplementedError, PGPDecryptionError):
+                continue
+""", more=[(PGP, "        for skesk in iter(sk for sk in self._sessionkeys if isinstance(sk, SKESessionKey)):", "        def attempt(packet):\n            symalg, key = packet.decrypt_sk(passphrase)\n            out = PGPMessage()\n            out.parse(self.message.decrypt(key, symalg))\n            return out\n\n        for skesk in iter(sk for sk in self._sessionkeys if isinstance(sk, SKESessionKey)):")])
+T('C04', 'twin-key-helper-select', PGP, """        pkesk = next(pk for pk in message._sessionkeys if isinstance(pk, PKESessionKey)
+                     and pk.pkalg == self.key_algorithm and pk.encrypter == self.fingerprint.keyid)
+""", """        pkesk = self._own_session_key_packet(message)
+""", more=[(PGP, "    @KeyAction(is_unlocked=True, is_public=False)\n    def decrypt(self, message):", "    def _own_session_key_packet(self, msg):\n        for packet in msg._sessionkeys:\n            if not isinstance(packet, PKESessionKey):\n                continue\n            if packet.pkalg != self.key_algorithm or packet.encrypter != self.fingerprint.keyid:\n                continue\n            return packet\n        raise StopIteration()\n\n    @KeyAction(is_unlocked=True, is_public=False)\n    def decrypt(self, message):")])
+T('C04', 'twin-key-helper-recipient', PGP, """        if self.fingerprint.keyid not in message.encrypters:
+            sks = set(self.subkeys)
+            mis = set(message.encrypters)
+            if sks & mis:
+                skid = list(sks & mis)[0]
+                return self.subkeys[skid].decrypt(message)
+
+            raise PGPError("Cannot decrypt the provided message with this key")
+""", """        if not self._is_recipient(message):
+            addressed = self._recipient_subkeys(message)
+            if not addressed:
+                raise PGPError("Cannot decrypt the provided message with this key")
+            return self.subkeys[addressed.pop()].decrypt(message)
+""", more=[(PGP, "    @KeyAction(is_unlocked=True, is_public=False)\n    def decrypt(self, message):", "    def _is_recipient(self, msg):\n        return self.fingerprint.keyid in msg.encrypters\n\n    def _recipient_subkeys(self, msg):\n        return set(self.subkeys) & set(msg.encrypters)\n\n    @KeyAction(is_unlocked=True, is_public=False)\n    def decrypt(self, message):")])
+T('C04', 'twin-ecdh-const-helper', FL, """        padder = PKCS7(64).unpadder()
+        return padder.update(_m) + padder.finalize()
+""", """        return self._pkcs5_unpad(_m)
+
+    _PKCS5_BLOCK_BITS = 8 * 8
+
+    def _pkcs5_unpad(self, padded):
+        unpadder = PKCS7(self._PKCS5_BLOCK_BITS).unpadder()
+        data = unpadder.update(padded)
+        data += unpadder.finalize()
+        return data
+""")
+T('C04', 'twin-keyblob-helpers', FL, """        if self.s2k.usage == 254 and not pt[-20:] == hashlib.new('sha1', pt[:-20]).digest():
+            # if the usage byte is 254, key material is followed by a 20-octet sha-1 hash of the rest
+            # of the key material block
+            raise PGPDecryptionError("Passphrase was incorrect!")
+
+        if self.s2k.usage == 255 and not self.bytes_to_int(pt[-2:]) == (sum(bytearray(pt[:-2])) % 65536):  # pragma: no cover
+            # if the usage byte is 255, key material is followed by a 2-octet checksum of the rest
+            # of the key material block
+            raise PGPDecryptionError("Passphrase was incorrect!")
+""", """        if not self._keyblob_intact(pt):
+            raise PGPDecryptionError("Passphrase was incorrect!")
+""", more=[(FL, "    def decrypt_keyblob(self, passphrase):\n        if not self.s2k:  # pragma: no cover", "    def _keyblob_intact(self, material):\n        if self.s2k.usage == 254:\n            return material[-20:] == hashlib.new('sha1', material[:-20]).digest()\n        if self.s2k.usage == 255:\n            return self.bytes_to_int(material[-2:]) == sum(bytearray(material[:-2])) % 65536\n        return True\n\n    def decrypt_keyblob(self, passphrase):\n        if not self.s2k:  # pragma: no cover")])
+M('C04', 'keyblob-helper-default-true', FL, """        if self.s2k.usage == 254 and not pt[-20:] == hashlib.new('sha1', pt[:-20]).digest():
+            # if the usage byte is 254, key material is followed by a 20-octet sha-1 hash of the rest
+            # of the key material block
+            raise PGPDecryptionError("Passphrase was incorrect!")
+
+        if self.s2k.usage == 255 and not self.bytes_to_int(pt[-2:]) == (sum(bytearray(pt[:-2])) % 65536):  # pragma: no cover
+            # if the usage byte is 255, key material is followed by a 2-octet checksum of the rest
+            # of the key material block
+            raise PGPDecryptionError("Passphrase was incorrect!")
+""", """        if not self._keyblob_intact(pt):
+            raise PGPDecryptionError("Passphrase was incorrect!")
+""", 'C04.4', more=[(FL, "    def decrypt_keyblob(self, passphrase):\n        if not self.s2k:  # pragma: no cover", "    def _keyblob_intact(self, material):\n        if self.s2k.usage == 254:\n            return material[-20:] == hashlib.new('sha1', material[:-20]).digest()\n        if self.s2k.usage == 253:\n            return self.bytes_to_int(material[-2:]) == sum(bytearray(material[:-2])) % 65536\n        return True\n\n    def decrypt_keyblob(self, passphrase):\n        if not self.s2k:  # pragma: no cover")])
+M('C04', 'seipd-helper-returns-bool-ignored', PK, """        _expected_mdcbytes = b'\\xd3\\x14' + hashlib.new('SHA1', pt[:-20]).digest()
+        if not constant_time.bytes_eq(bytes(pt[-22:]), _expected_mdcbytes):
+            raise PGPDecryptionError("Decryption failed")  # pragma: no cover
+
+        iv = bytes(pt[:alg.block_size // 8])""", """        self._verify_mdc(pt)
+
+        iv = bytes(pt[:alg.block_size // 8])""", 'C04.1',
+  more=[(PK, "class MDC(Packet):\n    \"\"\"\n    5.14.", "    def _verify_mdc(self, plaintext):\n        expected = b'\\xd3\\x14' + hashlib.new('SHA1', plaintext[:-20]).digest()\n        return constant_time.bytes_eq(bytes(plaintext[-22:]), expected)\n\n\nclass MDC(Packet):\n    \"\"\"\n    5.14.")])
+# mirrors of the independent twins (C04-ref3, C03-ref3, C04-ref4)
+T('C04', 'twin-msg-ref3-helper-sentinel', PGP, C04_MSG_LOOP, """        decmsg = None
+        candidates = [sk for sk in self._sessionkeys if isinstance(sk, SKESessionKey)]
+        for skesk in candidates:
+            try:
+                decmsg = self._decrypt_with_skesk(skesk, passphrase)
+
+            except self._skesk_mismatch_errors:
+                continue
+
+            break
+
+        if decmsg is None:
+            raise PGPDecryptionError("Decryption failed")
+
+        del passphrase
+        return decmsg
+
+    _skesk_mismatch_errors = (TypeError, ValueError, NotImplementedError, PGPDecryptionError)
+
+    def _decrypt_with_skesk(self, skesk, passphrase):
+        symalg, key = skesk.decrypt_sk(passphrase)
+        decmsg = PGPMessage()
+        decmsg.parse(self.message.decrypt(key, symalg))
+        return decmsg
+""")
+T('C04', 'twin-msg-ref3-continue-filter', PGP, "        for skesk in iter(sk for sk in self._sessionkeys if isinstance(sk, SKESessionKey)):\n            try:", "        for skesk in self._sessionkeys:\n            if not isinstance(skesk, SKESessionKey):\n                continue\n\n            try:")
+T('C04', 'twin-key-ref4-guard-clause', PGP, "            if sks & mis:\n                skid = list(sks & mis)[0]\n                return self.subkeys[skid].decrypt(message)\n\n            raise PGPError(\"Cannot decrypt the provided message with this key\")\n",
+  "            shared = sks & mis\n            if not shared:\n                raise PGPError(\"Cannot decrypt the provided message with this key\")\n\n            skid = list(shared)[0]\n            return self.subkeys[skid].decrypt(message)\n",
+  more=[(PGP, "        decmsg.parse(message.message.decrypt(key, alg))", "        decmsg.parse(message.message.decrypt(key=key, alg=alg))")])
+T('C04', 'twin-key-ref3-common-once', PGP, "            sks = set(self.subkeys)\n            mis = set(message.encrypters)\n            if sks & mis:\n                skid = list(sks & mis)[0]", "            common = set(self.subkeys) & set(message.encrypters)\n            if common:\n                skid = list(common)[0]")
+T('C04', 'twin-ecdh-ref4-branches-swapped', FL, """        if km.oid == EllipticCurveOID.Curve25519:
+            v = x25519.X25519PublicKey.from_public_bytes(self.p.x)
+            s = km.__privkey__().exchange(v)
+        else:
+            # assemble the public component of ephemeral key v
+            v = ec.EllipticCurvePublicNumbers(self.p.x, self.p.y, km.oid.curve()).public_key(default_backend())
+            # compute s using the inverse of how it was derived during encryption
+            s = km.__privkey__().exchange(ec.ECDH(), v)
+
+        # derive the wrapping key
+        z = km.kdf.derive_key(s, km.oid, PubKeyAlgorithm.ECDH, pk.fingerprint)
+
+        # unwrap and unpad m
+        _m = aes_key_unwrap(z, self.c, default_backend())
+
+        padder = PKCS7(64).unpadder()
+        return padder.update(_m) + padder.finalize()
+""", """        if km.oid != EllipticCurveOID.Curve25519:
+            ephemeral_numbers = ec.EllipticCurvePublicNumbers(self.p.x, self.p.y, km.oid.curve())
+            ephemeral_pub = ephemeral_numbers.public_key(default_backend())
+            shared_secret = km.__privkey__().exchange(ec.ECDH(), ephemeral_pub)
+        else:
+            ephemeral_pub = x25519.X25519PublicKey.from_public_bytes(self.p.x)
+            shared_secret = km.__privkey__().exchange(ephemeral_pub)
+
+        kek = km.kdf.derive_key(shared_secret, km.oid, PubKeyAlgorithm.ECDH, pk.fingerprint)
+        padded_m = aes_key_unwrap(wrapping_key=kek, wrapped_key=self.c, backend=default_backend())
+
+        unpadder = PKCS7(64).unpadder()
+        m = unpadder.update(padded_m)
+        m += unpadder.finalize()
+        return m
+""")
+M('C04', 'msg-ref3-helper-swallows', PGP, C04_MSG_LOOP, """        decmsg = None
+        candidates = [sk for sk in self._sessionkeys if isinstance(sk, SKESessionKey)]
+        for skesk in candidates:
+            try:
+                decmsg = self._decrypt_with_skesk(skesk, passphrase)
+
+            except self._skesk_mismatch_errors:
+                continue
+
+            break
+
+        if decmsg is None:
+            raise PGPDecryptionError("Decryption failed")
+
+        del passphrase
+        return decmsg
+
+    _skesk_mismatch_errors = (TypeError, ValueError, NotImplementedError, PGPDecryptionError)
+
+    def _decrypt_with_skesk(self, skesk, passphrase):
+        symalg, key = skesk.decrypt_sk(passphrase)
+        decmsg = PGPMessage()
+        try:
+            decmsg.parse(self.message.decrypt(key, symalg))
+        except PGPDecryptionError:
+            pass
+        return decmsg
+""", 'C04.5')
+M('C04', 'key-helper-select-loose', PGP, """        pkesk = next(pk for pk in message._sessionkeys if isinstance(pk, PKESessionKey)
+                     and pk.pkalg == self.key_algorithm and pk.encrypter == self.fingerprint.keyid)
+""", """        pkesk = self._own_session_key_packet(message)
+""", 'C04.6', more=[(PGP, "    @KeyAction(is_unlocked=True, is_public=False)\n    def decrypt(self, message):", "    def _own_session_key_packet(self, msg):\n        for packet in msg._sessionkeys:\n            if not isinstance(packet, PKESessionKey):\n                continue\n            if packet.pkalg != self.key_algorithm and packet.encrypter != self.fingerprint.keyid:\n                continue\n            return packet\n        raise StopIteration()\n\n    @KeyAction(is_unlocked=True, is_public=False)\n    def decrypt(self, message):")])
+T('C04', 'twin-msg-two-tries-errors', PGP, C04_MSG_LOOP, """        failures = []
+        packets = self._sessionkeys
+        if not packets:
+            raise PGPDecryptionError("Decryption failed")
+
+        for skesk in packets:
+            if not isinstance(skesk, SKESessionKey):
+                continue
+
+            try:
+                symalg, key = skesk.decrypt_sk(passphrase)
+            except (TypeError, ValueError, NotImplementedError, PGPDecryptionError) as exc:
+                failures.append(exc)
+                continue
+
+            decmsg = PGPMessage()
+            try:
+                decmsg.parse(self.message.decrypt(key, symalg))
+            except (TypeError, ValueError, NotImplementedError, PGPDecryptionError) as exc:
+                failures.append(exc)
+                continue
+
+            del passphrase
+            return decmsg
+
+        raise PGPDecryptionError("Decryption failed")
+""")
+M('C04', 'msg-two-tries-second-passes', PGP, C04_MSG_LOOP, """        failures = []
+        for skesk in self._sessionkeys:
+            if not isinstance(skesk, SKESessionKey):
+                continue
+
+            try:
+                symalg, key = skesk.decrypt_sk(passphrase)
+            except (TypeError, ValueError, NotImplementedError, PGPDecryptionError) as exc:
+                failures.append(exc)
+                continue
+
+            decmsg = PGPMessage()
+            try:
+                decmsg.parse(self.message.decrypt(key, symalg))
+            except (TypeError, ValueError, NotImplementedError, PGPDecryptionError) as exc:
+                failures.append(exc)
+
+            del passphrase
+            return decmsg
+
+        raise PGPDecryptionError("Decryption failed")
+""", 'C04.5')
+T('C04', 'twin-key-next-default', PGP, """        pkesk = next(pk for pk in message._sessionkeys if isinstance(pk, PKESessionKey)
+                     and pk.pkalg == self.key_algorithm and pk.encrypter == self.fingerprint.keyid)
+""", """        keyid = self.fingerprint.keyid
+        pkesk = next((pk for pk in message._sessionkeys
+                      if isinstance(pk, PKESessionKey) and pk.pkalg == self.key_algorithm and pk.encrypter == keyid), None)
+        if pkesk is None:
+            raise PGPError("Cannot decrypt the provided message with this key")
+""")
+T('C04', 'twin-key-try-stopiteration', PGP, """        pkesk = next(pk for pk in message._sessionkeys if isinstance(pk, PKESessionKey)
+                     and pk.pkalg == self.key_algorithm and pk.encrypter == self.fingerprint.keyid)
+""", """        try:
+            pkesk = next(pk for pk in message._sessionkeys if isinstance(pk, PKESessionKey)
+                         and pk.pkalg == self.key_algorithm and pk.encrypter == self.fingerprint.keyid)
+        except StopIteration:
+            raise PGPError("Cannot decrypt the provided message with this key")
+""")
+T('C04', 'twin-key-elif-aliases', PGP, """        if self.fingerprint.keyid not in message.encrypters:
+            sks = set(self.subkeys)
+            mis = set(message.encrypters)
+            if sks & mis:
+                skid = list(sks & mis)[0]
+                return self.subkeys[skid].decrypt(message)
+
+            raise PGPError("Cannot decrypt the provided message with this key")
+""", """        recipients = message.encrypters
+        mine = self.fingerprint.keyid in recipients
+        theirs = set(self._children) & set(recipients)
+        if not mine and theirs:
+            subkey = self._children[min(theirs)]
+            return subkey.decrypt(message)
+
+        elif not mine:
+            raise PGPError("Cannot decrypt the provided message with this key")
+""")
+M('C04', 'key-elif-or', PGP, """        if self.fingerprint.keyid not in message.encrypters:
+            sks = set(self.subkeys)
+            mis = set(message.encrypters)
+            if sks & mis:
+                skid = list(sks & mis)[0]
+                return self.subkeys[skid].decrypt(message)
+
+            raise PGPError("Cannot decrypt the provided message with this key")
+""", """        recipients = message.encrypters
+        mine = self.fingerprint.keyid in recipients
+        theirs = set(self._children) & set(recipients)
+        if not mine and theirs:
+            subkey = self._children[min(theirs)]
+            return subkey.decrypt(message)
+
+        elif not mine and not self._children:
+            raise PGPError("Cannot decrypt the provided message with this key")
+""", 'C04.6')
+T('C04', 'twin-keyblob-derive-kw', FL, "        sessionkey = self.s2k.derive_key(passphrase)\n        del passphrase\n\n        # attempt to decrypt this key", "        sessionkey = self.s2k.derive_key(passphrase=passphrase)\n        del passphrase\n\n        # attempt to decrypt this key")
+T('C04', 'twin-pkesk-sum-loop', PK, "        if not sum(symkey) % 65536 == checksum:  # pragma: no cover", "        total = 0\n        for octet in symkey:\n            total += octet\n\n        if total % 65536 != checksum:  # pragma: no cover")
+# wave-2 twin families (C04-ref6: static in-place helpers; C06-ref5: flag variable for the key blob trailer)
+T('C04', 'twin-seipd-w2-static-helpers', PK, C04_SEIPD, """        pt = _decrypt(bytes(self.ct), bytes(key), alg)
+
+        self._check_mdc(pt)
+        self._strip_prefix(pt, alg)
+
+        return pt
+
+    @staticmethod
+    def _check_mdc(pt):
+        mdc_body = hashlib.sha1(pt[:-20]).digest()
+        if not constant_time.bytes_eq(bytes(pt[-22:]), b'\\xd3\\x14' + mdc_body):
+            raise PGPDecryptionError("Decryption failed")  # pragma: no cover
+
+    @staticmethod
+    def _strip_prefix(pt, alg):
+        bs = alg.block_size // 8
+        iv = bytes(pt[:bs])
+        ivl2 = bytes(pt[bs:bs + 2])
+        del pt[:bs + 2]
+
+        if not constant_time.bytes_eq(iv[-2:], ivl2):
+            raise PGPDecryptionError("Decryption failed")  # pragma: no cover
+""")
+M('C04', 'seipd-w2-helper-mdc-only-if-present', PK, C04_SEIPD, """        pt = _decrypt(bytes(self.ct), bytes(key), alg)
+
+        self._check_mdc(pt)
+        self._strip_prefix(pt, alg)
+
+        return pt
+
+    @staticmethod
+    def _check_mdc(pt):
+        mdc_body = hashlib.sha1(pt[:-20]).digest()
+        if bytes(pt[-22:-20]) == b'\\xd3\\x14' and not constant_time.bytes_eq(bytes(pt[-20:]), mdc_body):
+            raise PGPDecryptionError("Decryption failed")  # pragma: no cover
+
+    @staticmethod
+    def _strip_prefix(pt, alg):
+        bs = alg.block_size // 8
+        iv = bytes(pt[:bs])
+        ivl2 = bytes(pt[bs:bs + 2])
+        del pt[:bs + 2]
+
+        if not constant_time.bytes_eq(iv[-2:], ivl2):
+            raise PGPDecryptionError("Decryption failed")  # pragma: no cover
+""", 'C04.1')
+T('C04', 'twin-keyblob-w2-intact-flag', FL, C04_KB, """        usage = self.s2k.usage
+        if usage == 254:
+            intact = hashlib.new('sha1', pt[:-20]).digest() == pt[-20:]
+
+        elif usage == 255:  # pragma: no cover
+            intact = sum(bytearray(pt[:-2])) % 65536 == int.from_bytes(pt[-2:], 'big')
+
+        else:  # pragma: no cover
+            intact = True
+
+        if not intact:
+            raise PGPDecryptionError("Passphrase was incorrect!")
+
+        return bytearray(pt)
+""")
+M('C04', 'keyblob-w2-intact-flag-inverted', FL, C04_KB, """        usage = self.s2k.usage
+        if usage == 254:
+            intact = hashlib.new('sha1', pt[:-20]).digest() == pt[-20:]
+
+        elif usage == 255:  # pragma: no cover
+            intact = sum(bytearray(pt[:-2])) % 65536 != int.from_bytes(pt[-2:], 'big')
+
+        else:  # pragma: no cover
+            intact = True
+
+        if not intact:
+            raise PGPDecryptionError("Passphrase was incorrect!")
+
+        return bytearray(pt)
+""", 'C04.4')
+M('C04', 'pkesk-checksum-skipped-when-zero', PK, C04_PKSK, """        cipher = SymmetricKeyAlgorithm(m[0])
+        klen = cipher.key_size // 8
+        sessionkey = m[1:1 + klen]
+        expected = int.from_bytes(m[1 + klen:3 + klen], 'big')
+        if expected and (sum(sessionkey) & 0xFFFF) != expected:
+            raise PGPDecryptionError("{:s} decryption failed".format(self.pkalg.name))
+        return cipher, sessionkey
+""", 'C04.3')
+M('C04', 'pkesk-checksum-low-octet', PK, "        checksum = self.bytes_to_int(m[:2])\n        del m[:2]\n\n        if not sum(symkey) % 65536 == checksum:", "        checksum = self.bytes_to_int(m[1:2])\n        del m[:2]\n\n        if not sum(symkey) % 256 == checksum:", 'C04.3')
+M('C04', 'pkesk-sum-loop-mod-256', PK, "        if not sum(symkey) % 65536 == checksum:  # pragma: no cover", "        total = 0\n        for octet in symkey:\n            total += octet\n\n        if total % 256 != checksum % 256:  # pragma: no cover", 'C04.3')
+M('C04', 'keyblob-nested-255-no-raise', FL, C04_KB, """        usage = self.s2k.usage
+        if usage == 254:
+            body, digest = pt[:-20], pt[-20:]
+            if digest != hashlib.sha1(body).digest():
+                raise PGPDecryptionError("Passphrase was incorrect!")
+
+        elif usage == 255:
+            if self.bytes_to_int(pt[-2:]) != sum(bytearray(pt[:-2])) % 65536:
+                warnings.warn("Passphrase was incorrect!")
+
+        return bytearray(pt)
+""", 'C04.4')
+M('C04', 'ecdh-unpad-manual', FL, C04_ECD, """        return _m[:-_m[-1]]
+""", 'C04.7')
+M('C04', 'key-selection-alg-only-when-set', PGP, "                     and pk.pkalg == self.key_algorithm and pk.encrypter == self.fingerprint.keyid)", "                     and pk.pkalg == self.key_algorithm and (not pk.encrypter or pk.encrypter == self.fingerprint.keyid))", 'C04.6')
+M('C04', 'msg-filter-hasattr', PGP, "        for skesk in iter(sk for sk in self._sessionkeys if isinstance(sk, SKESessionKey)):", "        for skesk in iter(sk for sk in self._sessionkeys if hasattr(sk, 'decrypt_sk')):", 'C04.5')
+
 # =============================================================================================== C03
 M('C03', 'checksum-65535', PK, "        m += self.int_to_bytes(sum(bytearray(symkey)) % 65536, 2)", "        m += self.int_to_bytes(sum(bytearray(symkey)) % 65535, 2)", 'C03.1')
 M('C03', 'checksum-1-octet', PK, "        m += self.int_to_bytes(sum(bytearray(symkey)) % 65536, 2)", "        m += self.int_to_bytes(sum(bytearray(symkey)) % 65536)", 'C03.1')
@@ -952,6 +1717,393 @@ M('C10', 'header-sep', TY, "headers=''.join('{key}: {val}\\n'.format(key=key, va
 T('C10', 'twin-crc-hex', TY, "        return crc & 0xFFFFFF", "        return crc & 16777215")
 T('C10', 'twin-payload-var', TY, "        payload = base64.b64encode(self.__bytes__()).decode('latin-1')\n        payload = '\\n'.join(payload[i:(i + 64)] for i in range(0, len(payload), 64))", "        b64 = base64.b64encode(self.__bytes__()).decode('latin-1')\n        payload = '\\n'.join(b64[i:(i + 64)] for i in range(0, len(b64), 64))")
 
+# ---- C10 hardening: twins (every family a rule was made blind to) and new mutants (one or more per rewritten rule)
+_CRC_BODY = """        crc = Armorable.__crc24_init
+
+        if not isinstance(data, bytearray):
+            data = iter(data)
+
+        for b in data:
+            crc ^= b << 16
+
+            for i in range(8):
+                crc <<= 1
+                if crc & 0x1000000:
+                    crc ^= Armorable.__crc24_poly
+
+        return crc & 0xFFFFFF
+"""
+T('C10', 'twin-crc-renamed-hoisted', TY, _CRC_BODY, """        poly = Armorable.__crc24_poly
+        carry = 0x1000000
+        mask = 0xFFFFFF
+
+        if isinstance(data, bytearray):
+            octets = data
+        else:
+            octets = iter(data)
+
+        register = Armorable.__crc24_init
+        for octet in octets:
+            register = register ^ (octet << 16)
+
+            for _ in range(8):
+                register = register << 1
+                if (register & carry) != 0:
+                    register = register ^ poly
+
+        return register & mask
+""")
+T('C10', 'twin-crc-literals-inline', TY, _CRC_BODY, """        acc = 0xB704CE
+        for octet in bytearray(data):
+            acc ^= octet << 16
+            for _round in range(0, 8):
+                acc <<= 1
+                if acc & (1 << 24):
+                    acc ^= 0x1864CFB
+        return acc & ((1 << 24) - 1)
+""")
+T('C10', 'twin-crc-test-before-shift', TY, _CRC_BODY, """        crc = Armorable.__crc24_init
+        for b in (data if isinstance(data, bytearray) else iter(data)):
+            crc ^= b << 16
+            for i in range(8):
+                # bit 23 before the shift is bit 24 after it
+                crc = (crc << 1) ^ (Armorable.__crc24_poly if crc & 0x800000 else 0)
+        return crc & 0xFFFFFF
+""")
+T('C10', 'twin-crc-mask-each-round', TY, _CRC_BODY, """        crc = Armorable.__crc24_init
+
+        if not isinstance(data, bytearray):
+            data = iter(data)
+
+        for b in data:
+            crc ^= b << 16
+
+            for i in range(8):
+                crc <<= 1
+                if crc & 0x1000000:
+                    crc ^= Armorable.__crc24_poly
+                crc &= 0xFFFFFF
+
+        return crc
+""")
+M('C10', 'crc-wrong-overflow-bit', TY, "                if crc & 0x1000000:", "                if crc & 0x800000:", 'C10.1')
+M('C10', 'crc-xor-always', TY, "                if crc & 0x1000000:\n                    crc ^= Armorable.__crc24_poly", "                crc ^= Armorable.__crc24_poly", 'C10.1')
+M('C10', 'crc-or-instead-of-xor', TY, "            crc ^= b << 16", "            crc |= b << 16", 'C10.1')
+M('C10', 'crc-rounds-9', TY, "            for i in range(8):\n                crc <<= 1", "            for i in range(9):\n                crc <<= 1", 'C10.1')
+M('C10', 'crc-mask-23-bits', TY, "        return crc & 0xFFFFFF", "        return crc & 0x7FFFFF", 'C10.1')
+M('C10', 'crc-poly-is-init', TY, "                    crc ^= Armorable.__crc24_poly", "                    crc ^= Armorable.__crc24_init", 'C10.1')
+M('C10', 'crc-shift-after-test', TY, "                crc <<= 1\n                if crc & 0x1000000:\n                    crc ^= Armorable.__crc24_poly", "                if crc & 0x1000000:\n                    crc ^= Armorable.__crc24_poly\n                crc <<= 1", 'C10.1')
+M('C10', 'crc-skips-first-octet-of-bytes', TY, "            data = iter(data)", "            data = iter(data[1:])", 'C10.1')
+
+_STR_BODY = """        payload = base64.b64encode(self.__bytes__()).decode('latin-1')
+        payload = '\\n'.join(payload[i:(i + 64)] for i in range(0, len(payload), 64))
+
+        return self.__armor_fmt.format(
+            block_type=self.magic,
+            headers=''.join('{key}: {val}\\n'.format(key=key, val=val) for key, val in self.ascii_headers.items()),
+            packet=payload,
+            crc=base64.b64encode(PGPObject.int_to_bytes(self.crc24(self.__bytes__()), 3)).decode('latin-1')
+        )
+"""
+T('C10', 'twin-str-helpers-locals', TY, "    def __str__(self):\n" + _STR_BODY, """    @staticmethod
+    def _radix64(octets):
+        return base64.b64encode(octets).decode('latin-1')
+
+    def _armor_header_lines(self):
+        lines = []
+        for key, val in self.ascii_headers.items():
+            lines.append('{key}: {val}\\n'.format(key=key, val=val))
+        return ''.join(lines)
+
+    def __str__(self):
+        width = 64
+        encoded = self._radix64(self.__bytes__())
+        rows = [encoded[start:(start + width)] for start in range(0, len(encoded), width)]
+        payload = '\\n'.join(rows)
+
+        block_type = self.magic
+        headers = self._armor_header_lines()
+        checksum = PGPObject.int_to_bytes(self.crc24(self.__bytes__()), 3)
+
+        return self.__armor_fmt.format(
+            block_type=block_type,
+            headers=headers,
+            packet=payload,
+            crc=self._radix64(checksum)
+        )
+""")
+T('C10', 'twin-str-concatenation', TY, _STR_BODY, """        octets = self.__bytes__()
+        text = str(base64.b64encode(octets), 'ascii')
+        lines = []
+        for off in range(0, len(text), 64):
+            lines.append(text[off:off + 64])
+        out = '-----BEGIN PGP ' + self.magic + '-----\\n'
+        out += ''.join(key + ': ' + val + '\\n' for key, val in self.ascii_headers.items())
+        out += '\\n' + '\\n'.join(lines) + '\\n'
+        out += '=' + base64.b64encode(PGPObject.int_to_bytes(Armorable.crc24(self.__bytes__()), minlen=3)).decode('ascii') + '\\n'
+        out += '-----END PGP ' + self.magic + '-----\\n'
+        return out
+""")
+T('C10', 'twin-str-fstring-percent', TY, _STR_BODY, """        payload = base64.b64encode(self.__bytes__()).decode()
+        payload = '\\n'.join([payload[i:i + 64] for i in range(0, len(payload), 64)])
+        headers = ''.join(['%s: %s\\n' % (k, v) for k, v in self.ascii_headers.items()])
+        crc = base64.b64encode(PGPObject.int_to_bytes(self.crc24(self.__bytes__()), 3)).decode()
+        return f'-----BEGIN PGP {self.magic}-----\\n{headers}\\n{payload}\\n={crc}\\n-----END PGP {self.magic}-----\\n'
+""")
+T('C10', 'twin-str-fstring-header-line', TY, "headers=''.join('{key}: {val}\\n'.format(key=key, val=val) for key, val in self.ascii_headers.items()),",
+  "headers=''.join(f'{name}: {value}\\n' for name, value in self.ascii_headers.items()),")
+M('C10', 'crc-over-all-but-last-octet', TY, "self.crc24(self.__bytes__()), 3)", "self.crc24(self.__bytes__()[:-1]), 3)", 'C10.2')
+M('C10', 'crc-equals-sign-dropped', TY, "                  '={crc}\\n' \\\n", "                  '{crc}\\n' \\\n", 'C10.2')
+M('C10', 'payload-of-other-export', TY, "        payload = base64.b64encode(self.__bytes__()).decode('latin-1')", "        payload = base64.b64encode(self.__bytes__()[1:]).decode('latin-1')", 'C10.2')
+M('C10', 'label-class-name', TY, "            block_type=self.magic,", "            block_type=self.__class__.__name__.upper(),", 'C10.2')
+M('C10', 'wrap-66-not-a-quantum', TY, "        payload = '\\n'.join(payload[i:(i + 64)] for i in range(0, len(payload), 64))", "        payload = '\\n'.join(payload[i:(i + 66)] for i in range(0, len(payload), 66))", 'C10.3')
+M('C10', 'reader-lines-60', TY, "(?P<body>([A-Za-z0-9+/]{1,76}={,2}(?:\\r?\\n))+)", "(?P<body>([A-Za-z0-9+/]{1,60}={,2}(?:\\r?\\n))+)", 'C10.3')
+M('C10', 'reader-no-padding', TY, "(?P<body>([A-Za-z0-9+/]{1,76}={,2}(?:\\r?\\n))+)", "(?P<body>([A-Za-z0-9+/]{1,76}(?:\\r?\\n))+)", 'C10.3')
+M('C10', 'reader-crc-group-5', TY, "^=(?P<crc>[A-Za-z0-9+/]{4})(?:\\r?\\n)", "^=(?P<crc>[A-Za-z0-9+/]{4,5})(?:\\r?\\n)", 'C10.2')
+T('C10', 'twin-regex-spelling', TY, "^=(?P<crc>[A-Za-z0-9+/]{4})(?:\\r?\\n)", "^=(?P<crc>(?:[A-Za-z0-9+/]{2}){2})(?:\\r\\n|\\n)")
+T('C10', 'twin-regex-body-spelling', TY, "(?P<body>([A-Za-z0-9+/]{1,76}={,2}(?:\\r?\\n))+)", "(?P<body>(?:[0-9A-Za-z/+]{1,76}(?:={1,2})?\\r?\\n)+)")
+
+_KEY_MAGIC = """        return '{:s} KEY BLOCK'.format('PUBLIC' if (isinstance(self._key, Public) and not isinstance(self._key, Private)) else
+                                       'PRIVATE' if isinstance(self._key, Private) else '')
+"""
+T('C10', 'twin-key-magic-if-chain', PGP, _KEY_MAGIC, """        if isinstance(self._key, Private):
+            return 'PRIVATE KEY BLOCK'
+        if isinstance(self._key, Public):
+            return 'PUBLIC KEY BLOCK'
+        return ' KEY BLOCK'
+""")
+T('C10', 'twin-key-magic-concat', PGP, _KEY_MAGIC, """        kind = ''
+        if isinstance(self._key, Private):
+            kind = 'PRIVATE'
+        elif isinstance(self._key, Public):
+            kind = 'PUBLIC'
+        return kind + ' KEY BLOCK'
+""")
+T('C10', 'twin-message-magic-ifexp', PGP, "        if self.type == 'cleartext':\n            return \"SIGNATURE\"\n        return \"MESSAGE\"",
+  "        return 'SIGNATURE' if self.type == 'cleartext' else 'MESSAGE'")
+M('C10', 'key-magic-swapped', PGP, "'PRIVATE' if isinstance(self._key, Private) else '')", "'PUBLIC' if isinstance(self._key, Private) else '')", 'C10.4',
+  more=[(PGP, "        return '{:s} KEY BLOCK'.format('PUBLIC' if (isinstance", "        return '{:s} KEY BLOCK'.format('PRIVATE' if (isinstance")])
+M('C10', 'key-magic-private-as-public', PGP, "'PUBLIC' if (isinstance(self._key, Public) and not isinstance(self._key, Private)) else", "'PUBLIC' if isinstance(self._key, Public) else", 'C10.4')
+M('C10', 'signature-label-lowercase', PGP, "    def magic(self):\n        return \"SIGNATURE\"", "    def magic(self):\n        return \"Signature\"", 'C10.4')
+
+_SIG_CHECK = "        if unarmored['magic'] is not None and unarmored['magic'] != 'SIGNATURE':\n            raise ValueError('Expected: SIGNATURE. Got: {}'.format(str(unarmored['magic'])))\n"
+_MSG_CHECK = "        if unarmored['magic'] is not None and unarmored['magic'] not in ['MESSAGE', 'SIGNATURE']:\n            raise ValueError('Expected: MESSAGE. Got: {}'.format(str(unarmored['magic'])))\n"
+_KEY_CHECK = "        if unarmored['magic'] is not None and 'KEY' not in unarmored['magic']:\n            raise ValueError('Expected: KEY. Got: {}'.format(str(unarmored['magic'])))\n"
+T('C10', 'twin-kind-checks-local-demorgan-tuple', PGP, _SIG_CHECK,
+  "        magic = unarmored['magic']\n        if not (magic is None or magic == 'SIGNATURE'):\n            raise ValueError('Expected: SIGNATURE. Got: {}'.format(str(magic)))\n",
+  more=[(PGP, "class PGPMessage(Armorable, PGPObject):\n", "class PGPMessage(Armorable, PGPObject):\n    _armor_kinds = ('MESSAGE', 'SIGNATURE')\n\n"),
+        (PGP, _MSG_CHECK, "        magic = unarmored['magic']\n        if magic is not None and magic not in self._armor_kinds:\n            raise ValueError('Expected: MESSAGE. Got: {}'.format(str(magic)))\n"),
+        (PGP, "        # cleartext signature\n        if unarmored['magic'] == 'SIGNATURE':", "        # cleartext signature\n        if magic == 'SIGNATURE':"),
+        (PGP, _KEY_CHECK, "        magic = unarmored['magic']\n        if magic is not None and 'KEY' not in magic:\n            raise ValueError('Expected: KEY. Got: {}'.format(str(magic)))\n")])
+T('C10', 'twin-kind-checks-nested-if-set', PGP, _SIG_CHECK,
+  "        if unarmored['magic'] is not None:\n            if not unarmored['magic'] == 'SIGNATURE':\n                raise ValueError('Expected: SIGNATURE. Got: {}'.format(str(unarmored['magic'])))\n",
+  more=[(PGP, _MSG_CHECK, "        label = unarmored['magic']\n        if label is None or label in {'MESSAGE', 'SIGNATURE'}:\n            pass\n        else:\n            raise ValueError('Expected: MESSAGE. Got: {}'.format(str(label)))\n"),
+        (PGP, _KEY_CHECK, "        if unarmored['magic'] is not None and unarmored['magic'].find('KEY') < 0:\n            raise ValueError('Expected: KEY. Got: {}'.format(str(unarmored['magic'])))\n")])
+T('C10', 'twin-message-parse-generator-helper', PGP, "    def parse(self, packet):\n        unarmored = self.ascii_unarmor(packet)\n        data = unarmored['body']\n\n        if unarmored['magic'] is not None and unarmored['magic'] not in ['MESSAGE', 'SIGNATURE']:",
+  "    @staticmethod\n    def _iter_packets(data):\n        while len(data) > 0:\n            yield Packet(data)\n\n    def parse(self, packet):\n        unarmored = self.ascii_unarmor(packet)\n        data = unarmored['body']\n\n        if unarmored['magic'] is not None and unarmored['magic'] not in ['MESSAGE', 'SIGNATURE']:",
+  more=[(PGP, "            while len(data) > 0:\n                pkt = Packet(data)\n                if not isinstance(pkt, Signature):  # pragma: no cover", "            for pkt in self._iter_packets(data):\n                if not isinstance(pkt, Signature):  # pragma: no cover"),
+        (PGP, "        else:\n            while len(data) > 0:\n                self |= Packet(data)\n", "        else:\n            for pkt in self._iter_packets(data):\n                self |= pkt\n")])
+M('C10', 'sig-kind-check-or', PGP, "        if unarmored['magic'] is not None and unarmored['magic'] != 'SIGNATURE':", "        if unarmored['magic'] is None or unarmored['magic'] != 'SIGNATURE':", 'C10.5')
+M('C10', 'sig-kind-check-after-packet', PGP, _SIG_CHECK + "\n        if unarmored['headers'] is not None:\n            self.ascii_headers = unarmored['headers']\n\n        # load *one* packet from data\n        pkt = Packet(data)\n",
+  "        if unarmored['headers'] is not None:\n            self.ascii_headers = unarmored['headers']\n\n        # load *one* packet from data\n        pkt = Packet(data)\n" + _SIG_CHECK, 'C10.5')
+M('C10', 'msg-kind-check-accepts-private-key', PGP, "unarmored['magic'] not in ['MESSAGE', 'SIGNATURE']:", "unarmored['magic'] not in ['MESSAGE', 'SIGNATURE', 'PRIVATE KEY BLOCK']:", 'C10.5')
+M('C10', 'msg-kind-check-drops-signature', PGP, "unarmored['magic'] not in ['MESSAGE', 'SIGNATURE']:", "unarmored['magic'] not in ['MESSAGE']:", 'C10.5')
+M('C10', 'key-kind-check-typeerror', PGP, "            raise ValueError('Expected: KEY. Got: {}'.format(str(unarmored['magic'])))", "            raise TypeError('Expected: KEY. Got: {}'.format(str(unarmored['magic'])))", 'C10.5')
+M('C10', 'key-kind-check-only-warns', PGP, "            raise ValueError('Expected: KEY. Got: {}'.format(str(unarmored['magic'])))", "            warnings.warn('Expected: KEY. Got: {}'.format(str(unarmored['magic'])))", 'C10.5')
+M('C10', 'key-kind-check-accepts-anything-with-e', PGP, "'KEY' not in unarmored['magic']:", "'E' not in unarmored['magic']:", 'C10.5')
+M('C10', 'cleartext-fallback-empty', PGP, "            self |= self.dash_unescape(unarmored['cleartext'])", "            self |= self.dash_unescape(unarmored['cleartext'] or '')", 'C10.5')
+
+_UNARMOR_TAIL = """        m = Armorable.__armor_regex.search(text)
+
+        if m is None:  # pragma: no cover
+            raise ValueError("Expected: ASCII-armored PGP data")
+
+        m = m.groupdict()
+
+        if m['hashes'] is not None:
+            m['hashes'] = m['hashes'].split(',')
+
+        if m['headers'] is not None:
+            m['headers'] = collections.OrderedDict(re.findall('^(?P<key>.+): (?P<value>.+)$\\n?', m['headers'], flags=re.MULTILINE))
+
+        if m['body'] is not None:
+            try:
+                m['body'] = bytearray(base64.b64decode(m['body'].encode()))
+
+            except (binascii.Error, TypeError) as ex:
+                raise PGPError(str(ex)) from ex
+
+        if m['crc'] is not None:
+            m['crc'] = Header.bytes_to_int(base64.b64decode(m['crc'].encode()))
+            if Armorable.crc24(m['body']) != m['crc']:
+                warnings.warn('Incorrect crc24', stacklevel=3)
+
+        return m
+"""
+T('C10', 'twin-unarmor-split-names-temporaries', TY, _UNARMOR_TAIL, """        match = Armorable.__armor_regex.search(text)
+
+        if match is None:  # pragma: no cover
+            raise ValueError("Expected: ASCII-armored PGP data")
+
+        fields = match.groupdict()
+
+        hashes = fields['hashes']
+        if hashes is not None:
+            fields['hashes'] = hashes.split(',')
+
+        headers = fields['headers']
+        if headers is not None:
+            fields['headers'] = collections.OrderedDict(Armorable.__armor_header_regex.findall(headers))
+
+        body = fields['body']
+        if body is not None:
+            try:
+                body = bytearray(base64.b64decode(body.encode()))
+
+            except (binascii.Error, TypeError) as ex:
+                raise PGPError(str(ex)) from ex
+
+            fields['body'] = body
+
+        crc = fields['crc']
+        if crc is not None:
+            expected = Header.bytes_to_int(base64.b64decode(crc.encode()))
+            fields['crc'] = expected
+            if Armorable.crc24(body) != expected:
+                warnings.warn('Incorrect crc24', stacklevel=3)
+
+        return fields
+""", more=[(TY, "    @property\n    def charset(self):", "    __armor_header_regex = re.compile('^(?P<key>.+): (?P<value>.+)$\\n?', flags=re.MULTILINE)\n\n    @property\n    def charset(self):")])
+T('C10', 'twin-unarmor-swapped-compare-else', TY, "            if Armorable.crc24(m['body']) != m['crc']:\n                warnings.warn('Incorrect crc24', stacklevel=3)",
+  "            if m['crc'] == Armorable.crc24(m['body']):\n                pass\n            else:\n                warnings.warn('Incorrect crc24', stacklevel=3)")
+T('C10', 'twin-unarmor-early-return-no-crc', TY, "        if m['crc'] is not None:\n            m['crc'] = Header.bytes_to_int(base64.b64decode(m['crc'].encode()))\n            if Armorable.crc24(m['body']) != m['crc']:\n                warnings.warn('Incorrect crc24', stacklevel=3)\n\n        return m",
+  "        if m['crc'] is None:\n            return m\n\n        m['crc'] = int.from_bytes(base64.b64decode(m['crc'].encode('ascii')), 'big')\n        mismatch = Armorable.crc24(m['body']) != m['crc']\n        if mismatch:\n            warnings.warn('Incorrect crc24', stacklevel=3)\n\n        return m")
+M('C10', 'crc-compared-undecoded', TY, "            m['crc'] = Header.bytes_to_int(base64.b64decode(m['crc'].encode()))\n            if Armorable.crc24(m['body']) != m['crc']:",
+  "            if Armorable.crc24(m['body']) != m['crc']:", 'C10.6')
+M('C10', 'crc-of-the-crc-line', TY, "            if Armorable.crc24(m['body']) != m['crc']:", "            if Armorable.crc24(base64.b64decode(m['crc'] if False else 'AAAA')) != m['crc']:", 'C10.6')
+M('C10', 'crc-warn-in-else', TY, "            if Armorable.crc24(m['body']) != m['crc']:\n                warnings.warn('Incorrect crc24', stacklevel=3)",
+  "            if Armorable.crc24(m['body']) != m['crc']:\n                pass\n            else:\n                warnings.warn('Incorrect crc24', stacklevel=3)", 'C10.6')
+M('C10', 'crc-checked-only-with-headers', TY, "            if Armorable.crc24(m['body']) != m['crc']:", "            if m['headers'] is not None and Armorable.crc24(m['body']) != m['crc']:", 'C10.6')
+M('C10', 'body-not-decoded', TY, "                m['body'] = bytearray(base64.b64decode(m['body'].encode()))", "                m['body'] = bytearray(m['body'].encode())", 'C10.6')
+M('C10', 'is-armor-match', TY, "        return Armorable.__armor_regex.search(text) is not None", "        return Armorable.__armor_regex.match(text) is not None", 'C10.7')
+M('C10', 'header-reader-sep-no-space', TY, "re.findall('^(?P<key>.+): (?P<value>.+)$\\n?', m['headers'], flags=re.MULTILINE)", "re.findall('^(?P<key>.+):(?P<value>.+)$\\n?', m['headers'], flags=re.MULTILINE)", 'C10.7')
+M('C10', 'end-label-not-tied', TY, "^-{5}END\\ PGP\\ (?P=magic)-{5}(?:\\r?\\n)?", "^-{5}END\\ PGP\\ [A-Z0-9 ,]+-{5}(?:\\r?\\n)?", 'C10.7')
+T('C10', 'twin-str-textwrap-to-bytes', TY, "        payload = '\\n'.join(payload[i:(i + 64)] for i in range(0, len(payload), 64))", "        payload = '\\n'.join(textwrap.wrap(payload, 64))",
+  more=[(TY, "crc=base64.b64encode(PGPObject.int_to_bytes(self.crc24(self.__bytes__()), 3)).decode('latin-1')", "crc=base64.b64encode(self.crc24(self.__bytes__()).to_bytes(3, 'big')).decode('latin-1')"),
+        (TY, "import warnings\n", "import textwrap\nimport warnings\n")])
+M('C10', 'wrap-textwrap-80', TY, "        payload = '\\n'.join(payload[i:(i + 64)] for i in range(0, len(payload), 64))", "        payload = '\\n'.join(textwrap.wrap(payload, 80))", 'C10.3',
+  more=[(TY, "import warnings\n", "import textwrap\nimport warnings\n")])
+M('C10', 'crc-to-bytes-2', TY, "crc=base64.b64encode(PGPObject.int_to_bytes(self.crc24(self.__bytes__()), 3)).decode('latin-1')", "crc=base64.b64encode((self.crc24(self.__bytes__()) & 0xFFFF).to_bytes(2, 'big')).decode('latin-1')", 'C10.2')
+T('C10', 'twin-kind-check-frozenset-constant', PGP, _MSG_CHECK, "        if unarmored['magic'] is not None and unarmored['magic'] not in PGPMessage._ARMOR_LABELS:\n            raise ValueError('Expected: MESSAGE. Got: {}'.format(str(unarmored['magic'])))\n",
+  more=[(PGP, "class PGPMessage(Armorable, PGPObject):\n", "class PGPMessage(Armorable, PGPObject):\n    _ARMOR_LABELS = frozenset(['MESSAGE', 'SIGNATURE'])\n\n")])
+M('C10', 'kind-check-frozenset-with-key-label', PGP, _MSG_CHECK, "        if unarmored['magic'] is not None and unarmored['magic'] not in PGPMessage._ARMOR_LABELS:\n            raise ValueError('Expected: MESSAGE. Got: {}'.format(str(unarmored['magic'])))\n", 'C10.5',
+  more=[(PGP, "class PGPMessage(Armorable, PGPObject):\n", "class PGPMessage(Armorable, PGPObject):\n    _ARMOR_LABELS = frozenset(['MESSAGE', 'SIGNATURE', 'PUBLIC KEY BLOCK'])\n\n")])
+T('C10', 'twin-crc-msb-first-formulation', TY, _CRC_BODY, """        crc = Armorable.__crc24_init
+        for b in bytes(data):
+            for bit in range(7, -1, -1):
+                top = ((crc >> 23) ^ (b >> bit)) & 1
+                crc = (crc << 1) & 0xFFFFFF
+                if top:
+                    crc ^= Armorable.__crc24_poly & 0xFFFFFF
+        return crc
+""")
+M('C10', 'crc-msb-first-wrong-tap', TY, _CRC_BODY, """        crc = Armorable.__crc24_init
+        for b in bytes(data):
+            for bit in range(7, -1, -1):
+                top = ((crc >> 22) ^ (b >> bit)) & 1
+                crc = (crc << 1) & 0xFFFFFF
+                if top:
+                    crc ^= Armorable.__crc24_poly & 0xFFFFFF
+        return crc
+""", 'C10.1')
+T('C10', 'twin-str-headers-by-key-newline-in-body', TY, _STR_BODY, """        payload = base64.b64encode(self.__bytes__()).decode('latin-1')
+        lines = [payload[i:(i + 64)] for i in range(0, len(payload), 64)]
+        body = '\\n'.join(lines) + '\\n'
+        headers = ''
+        for name in self.ascii_headers:
+            headers += '{}: {}\\n'.format(name, self.ascii_headers[name])
+
+        return '-----BEGIN PGP {0}-----\\n{1}\\n{2}={3}\\n-----END PGP {0}-----\\n'.format(
+            self.magic, headers, body, base64.b64encode(PGPObject.int_to_bytes(self.crc24(self.__bytes__()), 3)).decode('latin-1'))
+""")
+M('C10', 'headers-value-is-key', TY, "'{key}: {val}\\n'.format(key=key, val=val)", "'{key}: {val}\\n'.format(key=key, val=key)", 'C10.7')
+M('C10', 'headers-joined-without-newline', TY, "'{key}: {val}\\n'.format(key=key, val=val)", "'{key}: {val}'.format(key=key, val=val)", 'C10.7')
+T('C10', 'twin-kind-checks-none-in-tuple-truthiness', PGP, _SIG_CHECK, "        if unarmored['magic'] not in (None, 'SIGNATURE'):\n            raise ValueError('Expected: SIGNATURE. Got: {}'.format(str(unarmored['magic'])))\n",
+  more=[(PGP, _MSG_CHECK, "        accepted = {'MESSAGE', 'SIGNATURE'}\n        if unarmored['magic'] and unarmored['magic'] not in accepted:\n            raise ValueError('Expected: MESSAGE. Got: {}'.format(str(unarmored['magic'])))\n"),
+        (PGP, _KEY_CHECK, "        if unarmored['magic'] is not None and not unarmored['magic'].count('KEY'):\n            raise ValueError('Expected: KEY. Got: {}'.format(str(unarmored['magic'])))\n")])
+T('C10', 'twin-unarmor-compound-condition-raise', TY, "        if m['crc'] is not None:\n            m['crc'] = Header.bytes_to_int(base64.b64decode(m['crc'].encode()))\n            if Armorable.crc24(m['body']) != m['crc']:\n                warnings.warn('Incorrect crc24', stacklevel=3)",
+  "        if m['crc']:\n            m['crc'] = Header.bytes_to_int(base64.b64decode(m['crc'].encode()))\n        if m['crc'] is not None and not (Armorable.crc24(m['body']) == m['crc']):\n            import logging\n            logging.getLogger(__name__).warning('Incorrect crc24')")
+M('C10', 'crc-compound-condition-or', TY, "            if Armorable.crc24(m['body']) != m['crc']:", "            if m['magic'] == 'SIGNATURE' and Armorable.crc24(m['body']) != m['crc']:", 'C10.6')
+
+
+# ---- stress patches written by independent sub-agents (selftest/patches/G9-*.diff), turned into text edits hunk by hunk
+def _edits_from_diff(name):
+    import os, re
+    path = os.path.join(os.path.dirname(os.path.abspath(__file__)) if '__file__' in globals() else 'selftest', 'patches', name)
+    if not os.path.exists(path):
+        path = os.path.join('selftest', 'patches', name)
+    edits, cur, old, new = [], None, [], []
+
+    def flush():
+        if cur is not None and (old or new) and old != new:
+            edits.append((cur, ''.join(old), ''.join(new)))
+    with open(path, encoding='utf-8') as fh:
+        lines = fh.read().splitlines(keepends=True)
+    for l in lines:
+        if l.startswith('--- '):
+            continue
+        if l.startswith('+++ '):
+            flush()
+            old, new = [], []
+            cur = re.sub(r'^b/', '', l[4:].split('\t')[0].strip())
+            continue
+        if l.startswith('@@'):
+            flush()
+            old, new = [], []
+            continue
+        if cur is None or l.startswith('\\'):
+            continue
+        if l.startswith('-'):
+            old.append(l[1:])
+        elif l.startswith('+'):
+            new.append(l[1:])
+        elif l.startswith(' ') or l == '\n':
+            old.append(l[1:] if l.startswith(' ') else l)
+            new.append(l[1:] if l.startswith(' ') else l)
+    flush()
+    return edits
+
+
+def _TD(prop, id, name):
+    e = _edits_from_diff(name)
+    T(prop, id, e[0][0], e[0][1], e[0][2], more=e[1:])
+
+
+def _MD(prop, id, name, rule):
+    e = _edits_from_diff(name)
+    M(prop, id, e[0][0], e[0][1], e[0][2], rule, more=e[1:])
+
+
+for _n, _what in (('A-twin01', 'crc-test-before-shift-textwrap'), ('A-twin02', 'crc-variant-writer-variant'), ('A-twin07', 'writer-helpers-head-tail-constants'),
+                  ('A-twin08', 'writer-percent-template-findall'), ('A-twin10', 'writer-format-map-standard-b64encode')):
+    _TD('C10', 'stress-%s-%s' % (_n, _what), 'G9-%s.diff' % _n)
+for _n, _what, _r in (('A-mut01', 'crc-width-pad-dropped', 'C10.2'), ('A-mut02', 'header-lines-joined-by-newline', 'C10.7'), ('A-mut04', 'crc-restarts-per-slice', 'C10.2'),
+                      ('A-mut06', 'crc-greater-than-instead-of-bit-test', 'C10.1'), ('A-mut07', 'crc-urlsafe-alphabet', 'C10.2'), ('A-mut08', 'crc-mask-20-bits', 'C10.1')):
+    _MD('C10', 'stress-%s-%s' % (_n, _what), 'G9-%s.diff' % _n, _r)
+for _i, _what in enumerate(('local-none-in-tuple-fstring', 'shared-helper-with-predicates', 'class-constants-inverted-branches', 'packet-generator-if-chain-labels',
+                            'demorgan-iter-sentinel-loop', 'nested-ifs-percent-messages', 'flag-early-return', 'per-class-armor-ok-predicate',
+                            'itemgetter-get-find', 'error-factory-dict-lookup-label'), 1):
+    _TD('C10', 'stress-C-twin%02d-%s' % (_i, _what), 'G9-C-twin%02d.diff' % _i)
+for _i, (_what, _r) in enumerate((('message-labels-substring', 'C10.5'), ('key-word-block', 'C10.5'), ('signature-and-or', 'C10.5'), ('check-after-first-packet', 'C10.5'),
+                                  ('key-check-only-warns', 'C10.5'), ('cleartext-or-empty', 'C10.5'), ('cleartext-unescaped-twice', 'C10.5'),
+                                  ('key-magic-via-is-public', 'C10.4')), 1):
+    _MD('C10', 'stress-C-mut%02d-%s' % (_i, _what), 'G9-C-mut%02d.diff' % _i, _r)
+for _i in range(1, 11):
+    _TD('C10', 'stress-B-twin%02d-reader-regex-respelling' % _i, 'G9-B-twin%02d.diff' % _i)
+for _i, _what, _r in ((1, 'crc-zero-skips-check', 'C10.6'), (2, 'unarmor-match-not-search', 'C10.7'), (4, 'reader-lines-64', 'C10.3'), (5, 'crc-group-1-to-4', 'C10.2'),
+                      (6, 'end-label-free', 'C10.7')):
+    _MD('C10', 'stress-B-mut%02d-%s' % (_i, _what), 'G9-B-mut%02d.diff' % _i, _r)
+
 # =============================================================================================== C11
 M('C11', 'escape-two-spaces', PGP, "        return re.subn(r'^-', '- -', text, flags=re.MULTILINE)[0]", "        return re.subn(r'^-', '-  -', text, flags=re.MULTILINE)[0]", 'C11.1')
 M('C11', 'unescape-no-multiline', PGP, "        return re.subn(r'^- ', '', text, flags=re.MULTILINE)[0]", "        return re.subn(r'^- ', '', text)[0]", 'C11.1')
@@ -971,6 +2123,161 @@ M('C11', 'hash-alphabet-no-digits', TY, "(Hash:\\ (?P<hashes>[A-Za-z0-9\\-,]+)(?
 M('C11', 'final-line-greedy', TY, "(?P<cleartext>(.*\\r?\\n)*(.*?(?=\\r?\\n-{5})))(?:\\r?\\n)", "(?P<cleartext>(.*\\r?\\n)*(.*(?=\\r?\\n-{5})))(?:\\r?\\n)", 'C11.7')
 T('C11', 'twin-sub-instead-of-subn', PGP, "        return re.subn(r'^- ', '', text, flags=re.MULTILINE)[0]", "        return re.sub(r'^- ', '', text, flags=re.MULTILINE)")
 T('C11', 'twin-strip-at-end-line', PGP, "            return re.subn(r'[ \\t]+(?=\\r?$)', '', self.message, flags=re.MULTILINE)[0]", "            return re.sub(r'[\\t ]+(?=\\r?$)', '', self.message, flags=re.MULTILINE)")
+
+# ---- C11 hardening: twins (every family a rule was made blind to) and new mutants (one or more per rewritten rule)
+_ESC = "        return re.subn(r'^-', '- -', text, flags=re.MULTILINE)[0]"
+_UNE = "        return re.subn(r'^- ', '', text, flags=re.MULTILINE)[0]"
+T('C11', 'twin-dash-compiled-constants', PGP, _UNE, "        unescaped = PGPMessage._dash_escaped_line.sub('', text)\n        return unescaped",
+  more=[(PGP, _ESC, "        escaped = PGPMessage._dash_leading_line.sub('- -', text)\n        return escaped"),
+        (PGP, "class PGPMessage(Armorable, PGPObject):\n", "class PGPMessage(Armorable, PGPObject):\n    _dash_escaped_line = re.compile(r'^- ', flags=re.MULTILINE)\n    _dash_leading_line = re.compile(r'^-', flags=re.MULTILINE)\n\n")])
+T('C11', 'twin-dash-inline-flag-positional', PGP, _ESC, "        return re.sub(r'(?m)^-', '- -', text)",
+  more=[(PGP, _UNE, "        return re.sub('^- ', '', text, 0, re.M)")])
+T('C11', 'twin-dash-group-backreference', PGP, _ESC, "        return re.sub(r'^(-)', r'- \\1', text, flags=re.MULTILINE)")
+T('C11', 'twin-dash-whole-match-reference', PGP, _ESC, "        return re.sub(r'^-', r'- \\g<0>', text, flags=re.M)")
+T('C11', 'twin-dash-lookahead-insert', PGP, _ESC, "        return re.sub(r'^(?=-)', '- ', text, flags=re.MULTILINE)")
+M('C11', 'escape-first-match-only', PGP, _ESC, "        return re.subn(r'^-', '- -', text, count=1, flags=re.MULTILINE)[0]", 'C11.1')
+M('C11', 'escape-start-of-text-only', PGP, _ESC, "        return re.subn(r'\\A-', '- -', text, flags=re.MULTILINE)[0]", 'C11.1')
+M('C11', 'escape-drops-dash', PGP, _ESC, "        return re.subn(r'^-', '- ', text, flags=re.MULTILINE)[0]", 'C11.1')
+M('C11', 'unescape-optional-space', PGP, _UNE, "        return re.subn(r'^- ?', '', text, flags=re.MULTILINE)[0]", 'C11.1')
+M('C11', 'unescape-only-before-dash', PGP, _UNE, "        return re.subn(r'^- (?=-)', '', text, flags=re.MULTILINE)[0]", 'C11.1')
+M('C11', 'unescape-any-dash-space', PGP, _UNE, "        return re.subn(r'- ', '', text, flags=re.MULTILINE)[0]", 'C11.1')
+M('C11', 'unescape-other-text', PGP, _UNE, "        return re.subn(r'^- ', '', text.strip(), flags=re.MULTILINE)[0]", 'C11')
+
+_MSTR = """        if self.type == 'cleartext':
+            tmpl = u"-----BEGIN PGP SIGNED MESSAGE-----\\n" \\
+                   u"{hhdr:s}\\n" \\
+                   u"{cleartext:s}\\n" \\
+                   u"{signature:s}"
+
+            # only add a Hash: header if we actually have at least one signature
+            hashes = set(s.hash_algorithm.name for s in self.signatures)
+            hhdr = 'Hash: {hashes:s}\\n'.format(hashes=','.join(sorted(hashes))) if hashes else ''
+
+            return tmpl.format(hhdr=hhdr,
+                               cleartext=self.dash_escape(self.bytes_to_text(self._message)),
+                               signature=super(PGPMessage, self).__str__())
+
+        return super(PGPMessage, self).__str__()
+"""
+T('C11', 'twin-str-early-return-concat', PGP, _MSTR, """        if self.type != 'cleartext':
+            return super(PGPMessage, self).__str__()
+
+        hash_names = {sig.hash_algorithm.name for sig in self.signatures}
+        if hash_names:
+            hash_header = 'Hash: ' + ','.join(sorted(hash_names)) + '\\n'
+        else:
+            hash_header = ''
+
+        escaped_text = self.dash_escape(self.bytes_to_text(self._message))
+        signature_block = super(PGPMessage, self).__str__()
+
+        return u"-----BEGIN PGP SIGNED MESSAGE-----\\n{hhdr:s}\\n{cleartext:s}\\n{signature:s}".format(
+            hhdr=hash_header, cleartext=escaped_text, signature=signature_block)
+""")
+T('C11', 'twin-str-fstring-list', PGP, _MSTR, """        armor = super().__str__()
+        if self.type == 'cleartext':
+            names = sorted(set([s.hash_algorithm.name for s in self._signatures]))
+            out = '-----BEGIN PGP SIGNED MESSAGE-----\\n'
+            if len(names) > 0:
+                out += f"Hash: {','.join(names)}\\n"
+            out += '\\n' + self.dash_escape(self.message) + '\\n'
+            return out + armor
+
+        return armor
+""")
+T('C11', 'twin-str-percent', PGP, "            hhdr = 'Hash: {hashes:s}\\n'.format(hashes=','.join(sorted(hashes))) if hashes else ''",
+  "            hhdr = ''\n            if hashes:\n                hhdr = 'Hash: %s\\n' % ','.join(sorted(hashes))")
+M('C11', 'hash-header-space-separated', PGP, "hashes=','.join(sorted(hashes))", "hashes=', '.join(sorted(hashes))", 'C11.3')
+M('C11', 'hash-header-first-signature-only', PGP, "            hashes = set(s.hash_algorithm.name for s in self.signatures)", "            hashes = set(s.hash_algorithm.name for s in self.signatures[:1])", 'C11.3')
+M('C11', 'hash-header-lowercase', PGP, "            hashes = set(s.hash_algorithm.name for s in self.signatures)", "            hashes = set(s.hash_algorithm.name.lower() for s in self.signatures)", 'C11.3')
+M('C11', 'hash-header-when-empty', PGP, "if hashes else ''", "if not hashes else ''", 'C11.3')
+M('C11', 'hash-header-no-blank-line', PGP, "                   u\"{hhdr:s}\\n\" \\\n", "                   u\"{hhdr:s}\" \\\n", 'C11.3')
+M('C11', 'escape-twice-on-write', PGP, "cleartext=self.dash_escape(self.bytes_to_text(self._message)),", "cleartext=self.dash_escape(self.dash_escape(self.bytes_to_text(self._message))),", 'C11.2')
+M('C11', 'write-raw-message-bytes', PGP, "cleartext=self.dash_escape(self.bytes_to_text(self._message)),", "cleartext=self.dash_escape(str(self._message)),", 'C11.2')
+M('C11', 'hash-reader-no-dash', TY, "(Hash:\\ (?P<hashes>[A-Za-z0-9\\-,]+)(?:\\r?\\n){2})?", "(Hash:\\ (?P<hashes>[A-Za-z0-9_]+)(?:\\r?\\n){2})?", 'C11.3')
+M('C11', 'hash-reader-one-newline', TY, "(Hash:\\ (?P<hashes>[A-Za-z0-9\\-,]+)(?:\\r?\\n){2})?", "(Hash:\\ (?P<hashes>[A-Za-z0-9\\-,]+)(?:\\r?\\n))?", 'C11.3')
+T('C11', 'twin-regex-newlines-spelled-out', TY, "(Hash:\\ (?P<hashes>[A-Za-z0-9\\-,]+)(?:\\r?\\n){2})?", "(Hash:\\ (?P<hashes>[-,0-9A-Za-z]+)\\r?\\n(?:\\r\\n|\\n))?",
+  more=[(TY, "(^-{5}BEGIN\\ PGP\\ SIGNED\\ MESSAGE-{5}(?:\\r?\\n)", "(^-{5}BEGIN\\ PGP\\ SIGNED\\ MESSAGE-{5}\\r?\\n"),
+        (TY, "(?P<cleartext>(.*\\r?\\n)*(.*?(?=\\r?\\n-{5})))(?:\\r?\\n)", "(?P<cleartext>(?:.*\\r?\\n)*(?:.*?(?=\\r?\\n-----)))\\r?\\n")])
+M('C11', 'final-line-greedy-noncapturing', TY, "(?P<cleartext>(.*\\r?\\n)*(.*?(?=\\r?\\n-{5})))(?:\\r?\\n)", "(?P<cleartext>(?:.*\\r?\\n)*(?:.*(?=\\r?\\n-{5})))(?:\\r?\\n)", 'C11.7')
+
+T('C11', 'twin-parse-unescape-temporary', PGP, "            self |= self.dash_unescape(unarmored['cleartext'])", "            text = unarmored['cleartext']\n            text = self.dash_unescape(text)\n            self |= text")
+M('C11', 'unescape-stripped-group', PGP, "            self |= self.dash_unescape(unarmored['cleartext'])", "            self |= self.dash_unescape(unarmored['cleartext'].strip())", 'C11.2')
+M('C11', 'unescape-result-dropped', PGP, "            self |= self.dash_unescape(unarmored['cleartext'])", "            self.dash_unescape(unarmored['cleartext'])\n            self |= unarmored['cleartext']", 'C11.2')
+
+_SD = "            return re.subn(r'[ \\t]+(?=\\r?$)', '', self.message, flags=re.MULTILINE)[0]"
+T('C11', 'twin-signed-data-compiled-inline-flag', PGP, _SD, "            stripped = PGPMessage._trailing_blanks.sub('', self.message)\n            return stripped",
+  more=[(PGP, "class PGPMessage(Armorable, PGPObject):\n", "class PGPMessage(Armorable, PGPObject):\n    _trailing_blanks = re.compile(r'(?m)[\\t ]+(?=\\r?$)')\n\n")])
+T('C11', 'twin-signed-data-ifexp', PGP, "        if self.type == 'cleartext':\n            # RFC 4880 7.1: trailing spaces and tabs of each line are not part of the signed text\n" + _SD + "\n\n        return self.message",
+  "        return re.sub('[ \\t]+(?=\\r?$)', '', self.message, flags=re.M) if self.type == 'cleartext' else self.message")
+M('C11', 'strip-star', PGP, _SD, "            return re.subn(r'[ \\t]*(?=\\r?$)', 'x', self.message, flags=re.MULTILINE)[0]", 'C11.4')
+M('C11', 'strip-before-newline-only', PGP, _SD, "            return re.subn(r'[ \\t]+(?=\\r?\\n)', '', self.message, flags=re.MULTILINE)[0]", 'C11.4')
+M('C11', 'strip-first-line-only', PGP, _SD, "            return re.subn(r'[ \\t]+(?=\\r?$)', '', self.message, count=1, flags=re.MULTILINE)[0]", 'C11.4')
+M('C11', 'strip-all-whitespace-class', PGP, _SD, "            return re.subn(r'[ \\t\\r]+(?=\\r?$)', '', self.message, flags=re.MULTILINE)[0]", 'C11.4')
+M('C11', 'strip-applied-to-literal-too', PGP, "            return re.subn(r'[ \\t]+(?=\\r?$)', '', self.message, flags=re.MULTILINE)[0]\n\n        return self.message",
+  "            return re.subn(r'[ \\t]+(?=\\r?$)', '', self.message, flags=re.MULTILINE)[0]\n\n        return self.message.strip()", 'C11.4')
+
+_SIGN = """        sig_type = SignatureType.BinaryDocument
+        hash_algo = prefs.pop('hash', None)
+
+        if subject is None:
+            sig_type = SignatureType.Timestamp
+
+        if isinstance(subject, PGPMessage):
+            if subject.type == 'cleartext':
+                sig_type = SignatureType.CanonicalDocument
+
+            subject = subject._signed_data
+
+        sig = PGPSignature.new(sig_type, self.key_algorithm, hash_algo, self.fingerprint.keyid, created=prefs.pop('created', None))
+"""
+T('C11', 'twin-sign-if-chain', PGP, _SIGN, """        hash_algo = prefs.pop('hash', None)
+
+        if subject is None:
+            sig_type = SignatureType.Timestamp
+
+        elif isinstance(subject, PGPMessage):
+            is_cleartext = subject.type == 'cleartext'
+            sig_type = SignatureType.CanonicalDocument if is_cleartext else SignatureType.BinaryDocument
+            subject = subject._signed_data
+
+        else:
+            sig_type = SignatureType.BinaryDocument
+
+        sig = PGPSignature.new(sig_type, self.key_algorithm, hash_algo, self.fingerprint.keyid,
+                               created=prefs.pop('created', None))
+""", more=[(PGP, "            _data += re.subn(br'\\r?\\n', b'\\r\\n', subject)[0]", "            canonical = re.sub(br'\\r?\\n', b'\\r\\n', subject)\n            _data += canonical")])
+M('C11', 'sign-view-only-for-literal', PGP, "                sig_type = SignatureType.CanonicalDocument\n\n            subject = subject._signed_data", "                sig_type = SignatureType.CanonicalDocument\n                subject = subject.message\n\n            else:\n                subject = subject._signed_data", 'C11.4')
+M('C11', 'cleartext-signed-as-standalone', PGP, "                sig_type = SignatureType.CanonicalDocument\n", "                sig_type = SignatureType.Standalone\n", 'C11.6')
+M('C11', 'literal-signed-as-text', PGP, "        if isinstance(subject, PGPMessage):\n            if subject.type == 'cleartext':\n                sig_type = SignatureType.CanonicalDocument", "        if isinstance(subject, PGPMessage):\n            if subject.type in ('cleartext', 'literal'):\n                sig_type = SignatureType.CanonicalDocument", 'C11.6')
+
+T('C11', 'twin-verify-extend-generators', PGP, "                for sig in _filter_sigs(subject.signatures):\n                    sspairs.append((sig, subject._signed_data))",
+  "                sspairs.extend((sig, subject._signed_data) for sig in _filter_sigs(subject.signatures))")
+T('C11', 'twin-verify-view-in-local', PGP, "                for sig in _filter_sigs(subject.signatures):\n                    sspairs.append((sig, subject._signed_data))",
+  "                signed_view = subject._signed_data\n                sspairs += [(s, signed_view) for s in _filter_sigs(subject.signatures)]")
+M('C11', 'verify-stripped-message', PGP, "                    sspairs.append((sig, subject._signed_data))", "                    sspairs.append((sig, subject.message.rstrip()))", 'C11.4')
+M('C11', 'verify-message-object', PGP, "                    sspairs.append((sig, subject._signed_data))", "                    sspairs.append((sig, subject))", 'C11.4')
+T('C11', 'twin-str-hash-header-if-signatures', PGP, "            hhdr = 'Hash: {hashes:s}\\n'.format(hashes=','.join(sorted(hashes))) if hashes else ''",
+  "            hhdr = ''\n            if self.signatures:\n                hhdr = 'Hash: ' + ','.join(sorted(hashes)) + '\\n'")
+M('C11', 'hash-header-if-no-signatures', PGP, "            hhdr = 'Hash: {hashes:s}\\n'.format(hashes=','.join(sorted(hashes))) if hashes else ''",
+  "            hhdr = ''\n            if not self.signatures:\n                hhdr = 'Hash: ' + ','.join(sorted(hashes)) + '\\n'", 'C11.3')
+T('C11', 'twin-dash-per-line-str-methods', PGP, _ESC, "        return '\\n'.join('- ' + line if line.startswith('-') else line for line in text.split('\\n'))",
+  more=[(PGP, _UNE, "        return '\\n'.join(line.removeprefix('- ') for line in text.split('\\n'))")])
+M('C11', 'escape-per-line-wrong-prefix-test', PGP, _ESC, "        return '\\n'.join('- ' + line if line.startswith('--') else line for line in text.split('\\n'))", 'C11.1')
+M('C11', 'unescape-per-line-removes-dash-only', PGP, _UNE, "        return '\\n'.join(line.removeprefix('-') for line in text.split('\\n'))", 'C11.1')
+
+for _i, _what in enumerate(('sub-everywhere-early-return', 'precompiled-class-constants', 'inline-flag-merged-template-concat', 'positional-count-flags-if-chain-listcomp',
+                            'regex-respellings-percent-bound-super', 'lookahead-insert-mangled-template-fstring', 'inverted-view-flag-extend-generator',
+                            'mangled-compiled-join-parts', 'verify-hoisted-view-local-compile', 'nonraw-patterns-positional-fields-count0'), 1):
+    _TD('C11', 'stress-D-twin%02d-%s' % (_i, _what), 'G9-D-twin%02d.diff' % _i)
+for _i, (_what, _r) in enumerate((('escape-str-replace-first-line', 'C11.1'), ('unescape-flag-in-count-position', 'C11.1'), ('text-literal-signed-as-canonical', 'C11.6'),
+                                  ('strip-misses-last-line', 'C11.4'), ('hash-header-lowercase-hasher-name', 'C11.3'), ('blank-line-folded-into-hash-header', 'C11.3'),
+                                  ('verify-raw-message', 'C11.4'), ('lone-cr-canonicalised', 'C11.4')), 1):
+    _MD('C11', 'stress-D-mut%02d-%s' % (_i, _what), 'G9-D-mut%02d.diff' % _i, _r)
+for _i in range(1, 11):
+    _TD('C11', 'stress-B-twin%02d-reader-regex-respelling' % _i, 'G9-B-twin%02d.diff' % _i)
+for _i, _what, _r in ((7, 'hash-framing-two-or-more', 'C11.3'), (8, 'final-cleartext-line-greedy', 'C11.7')):
+    _MD('C11', 'stress-B-mut%02d-%s' % (_i, _what), 'G9-B-mut%02d.diff' % _i, _r)
 
 # =============================================================================================== C09
 M('C09', 'enc-191', TY, "            if 192 > nl:\n                return Header.int_to_bytes(nl)", "            if 191 > nl:\n                return Header.int_to_bytes(nl)", 'C09.1')
@@ -1300,6 +2607,204 @@ M('C08', 'notation-skip-name-len', SS, "        nlen = self.bytes_to_int(packet[
 M('C08', 'subpacket-update-hlen-off', ST, "        self.header.length = (len(self.__bytearray__()) - len(self.header)) + 1", "        self.header.length = (len(self.__bytearray__()) - len(self.header))", 'C08.h')
 T('C08', 'twin-read-local', PK, "        self.mtime = packet[:4]\n        del packet[:4]", "        raw_time = packet[:4]\n        del packet[:4]\n        self.mtime = raw_time")
 T('C08', 'twin-pend-inline', PK, "        pend = self.header.length - 6\n        self.keymaterial.parse(packet[:pend])\n        del packet[:pend]", "        self.keymaterial.parse(packet[:self.header.length - 6])\n        del packet[:self.header.length - 6]")
+# --- C08 hardening (semantic rules): new mutants per rewritten rule, twin families that must stay silent
+M('C08', 'literal-remainder-misses-format-octet', PK, '        self._contents = packet[:self.header.length - (6 + fnl)]\n        del packet[:self.header.length - (6 + fnl)]',
+  '        consumed = 1 + fnl + 4\n        self._contents = packet[:self.header.length - consumed]\n        del packet[:self.header.length - consumed]', 'C08.d')
+M('C08', 'onepass-offset-reads-swapped', PK, '        self.sigtype = packet[0]\n        del packet[0]\n\n        self.halg = packet[0]\n        del packet[0]\n\n        self.pubalg = packet[0]\n        del packet[0]\n\n        self.signer = packet[:8]\n        del packet[:8]\n\n        self.nested = (packet[0] == 1)\n        del packet[0]',
+  '        self.sigtype = packet[0]\n        self.pubalg = packet[1]\n        self.halg = packet[2]\n        del packet[:3]\n\n        self.signer = packet[:8]\n        del packet[:8]\n\n        self.nested = (packet[0] == 1)\n        del packet[0]', 'C08.c')
+M('C08', 'onepass-offset-read-gap', PK, '        self.sigtype = packet[0]\n        del packet[0]\n\n        self.halg = packet[0]\n        del packet[0]\n\n        self.pubalg = packet[0]\n        del packet[0]\n\n        self.signer = packet[:8]\n        del packet[:8]\n\n        self.nested = (packet[0] == 1)\n        del packet[0]',
+  '        self.sigtype = packet[0]\n        self.halg = packet[1]\n        self.pubalg = packet[2]\n        del packet[:3]\n\n        self.signer = packet[1:9]\n        del packet[:8]\n\n        self.nested = (packet[0] == 1)\n        del packet[0]', 'C08.a')
+M('C08', 'onepass-merged-del-short', PK, '        self.sigtype = packet[0]\n        del packet[0]\n\n        self.halg = packet[0]\n        del packet[0]\n\n        self.pubalg = packet[0]\n        del packet[0]\n\n        self.signer = packet[:8]\n        del packet[:8]\n\n        self.nested = (packet[0] == 1)\n        del packet[0]',
+  '        self.sigtype = packet[0]\n        self.halg = packet[1]\n        self.pubalg = packet[2]\n        del packet[:2]\n\n        self.signer = packet[:8]\n        del packet[:8]\n\n        self.nested = (packet[0] == 1)\n        del packet[0]', 'C08.a')
+M('C08', 'rsa-parse-locals-swapped', FL, '    def parse(self, packet):\n        self.n = MPI(packet)\n        self.e = MPI(packet)\n\n\nclass DSAPub',
+  '    def parse(self, packet):\n        e = MPI(packet)\n        n = MPI(packet)\n        self.n, self.e = n, e\n\n\nclass DSAPub', 'C08.c')
+M('C08', 'hashed-area-peek-short', FL, '        hashed_raw = packet[:2 + hl]\n',
+  '        hashed_raw = packet[:1 + hl]\n', 'C08.a')
+M('C08', 'hashed-area-peek-transformed', FL, '        self._hashed_raw = hashed_raw\n',
+  '        self._hashed_raw = hashed_raw[2:]\n', 'C08.a')
+M('C08', 'notation-offset-reads-overlap', SS, '        self.flags = packet[:1]\n        del packet[:4]\n        nlen = self.bytes_to_int(packet[:2])\n        del packet[:2]\n        vlen = self.bytes_to_int(packet[:2])\n        del packet[:2]\n',
+  '        self.flags = packet[:1]\n        nlen = self.bytes_to_int(packet[4:6])\n        vlen = self.bytes_to_int(packet[5:7])\n        del packet[:8]\n', 'C08.a')
+M('C08', 'notation-offset-reads-del-short', SS, '        self.flags = packet[:1]\n        del packet[:4]\n        nlen = self.bytes_to_int(packet[:2])\n        del packet[:2]\n        vlen = self.bytes_to_int(packet[:2])\n        del packet[:2]\n',
+  '        self.flags = packet[:1]\n        nlen = self.bytes_to_int(packet[4:6])\n        vlen = self.bytes_to_int(packet[6:8])\n        del packet[:7]\n', 'C08.a')
+M('C08', 'dispatch-factory-gets-root-class', TY, '    def __call__(cls, packet=None):  # NOQA\n        def _makeobj(cls):\n            obj = object.__new__(cls)\n            obj.__init__()\n            return obj\n\n',
+  '    @staticmethod\n    def _makeobj(cls):\n        obj = object.__new__(cls)\n        obj.__init__()\n        return obj\n\n    def __call__(cls, packet=None):  # NOQA\n', 'C08.g', more=[(TY, '            obj = _makeobj(ncls)\n', '            obj = MetaDispatchable._makeobj(rcls)\n'), (TY, '            obj = _makeobj(cls)\n', '            obj = MetaDispatchable._makeobj(cls)\n')])
+M('C08', 'skesk-remainder-minus-1', PK, '        ctend = self.header.length - len(self.s2k)\n',
+  '        ctend = self.header.length - len(self.s2k) - 1\n', 'C08.d')
+M('C08', 'sigv4-tuple-reads-swapped', PK, '        self.sigtype = packet[0]\n        del packet[0]\n\n        self.pubalg = packet[0]\n        del packet[0]\n\n        self.halg = packet[0]\n        del packet[0]\n\n        self.subpackets.parse(packet)\n\n        self.hash2 = packet[:2]\n        del packet[:2]\n\n        self.signature.parse(packet)\n',
+  '        sigtype, halg, pubalg = packet[0], packet[1], packet[2]\n        del packet[:3]\n        self.sigtype = sigtype\n        self.pubalg = pubalg\n        self.halg = halg\n\n        sp = self.subpackets\n        sp.parse(packet)\n\n        left16 = packet[:2]\n        del packet[:2]\n        self.hash2 = left16\n\n        self.signature.parse(packet)\n', 'C08.c')
+M('C08', 'pubkey-fixed-part-sum-5', PK, '        self.created = packet[:4]\n        del packet[:4]\n\n        self.pkalg = packet[0]\n        del packet[0]\n\n        # bound keymaterial to the remaining length of the packet\n        pend = self.header.length - 6\n        self.keymaterial.parse(packet[:pend])\n        del packet[:pend]\n',
+  '        self.created = packet[:4]\n        self.pkalg = packet[4]\n        del packet[:5]\n\n        fixed = 4 + 1\n        body = packet[:self.header.length - fixed]\n        self.keymaterial.parse(body)\n        del packet[:self.header.length - fixed]\n', 'C08.d')
+M('C08', 'elg-alias-guard-falls-through', FL, '        if not self.s2k:\n            self.x = MPI(packet)\n\n            if self.s2k.usage == 0:\n                self.chksum = packet[:2]\n                del packet[:2]\n\n        else:\n            self.encbytes = packet\n\n    def decrypt_keyblob(self, passphrase):\n        kb = super(ElGPriv, self).decrypt_keyblob(passphrase)',
+  '        if self.s2k:\n            self.encbytes = packet\n\n        else:\n            self.x = MPI(packet)\n\n        if self.s2k.usage in (0, 255):\n            cks = packet[:2]\n            del packet[:2]\n            self.chksum = cks\n\n    def decrypt_keyblob(self, passphrase):\n        kb = super(ElGPriv, self).decrypt_keyblob(passphrase)', 'C08.b')
+M('C08', 'literal-append-len-chars', PK, '        _bytes += bytearray([len(filename)])\n        _bytes += filename',
+  '        _bytes.append(len(self.filename))\n        _bytes.extend(filename)', 'C08.e')
+M('C08', 'onepass-pop-reads-swapped', PK, '        self.sigtype = packet[0]\n        del packet[0]\n\n        self.halg = packet[0]\n        del packet[0]\n\n        self.pubalg = packet[0]\n        del packet[0]\n\n        self.signer = packet[:8]\n        del packet[:8]\n\n        self.nested = (packet[0] == 1)\n        del packet[0]',
+  '        self.sigtype = packet.pop(0)\n        self.pubalg = packet.pop(0)\n        self.halg = packet.pop(0)\n\n        self.signer = packet[:8]\n        del packet[:8]\n\n        self.nested = (packet.pop(0) == 1)', 'C08.c')
+M('C08', 'uri-bytes-constructor-utf16', SS, '        _bytes += self.uri.encode()\n        return _bytes',
+  "        _bytes += bytes(self.uri, 'utf-16')\n        return _bytes", 'C08.f')
+M('C08', 'filename-str-constructor-latin1', PK, '        self.filename = packet[:fnl].decode()\n',
+  "        self.filename = str(packet[:fnl], 'latin-1')\n", 'C08.f')
+M('C08', 'signer-hex-digits-utf16', PK, "        self._signer = binascii.hexlify(val).upper().decode('latin-1')",
+  '        self._signer = val.hex().upper()', 'C08.f', more=[(PK, '        _bytes += binascii.unhexlify(self.signer.encode("latin-1"))', '        _bytes += binascii.unhexlify(self.signer.encode("utf-16"))')])
+M('C08', 'uid-writer-codec-swapped', PK, "textenc = 'utf-8' if not self._encoding_fallback else 'charmap'",
+  "textenc = 'utf-8' if self._encoding_fallback else 'charmap'", 'C08.f')
+M('C08', 'uid-writer-ignores-fallback', PK, "textenc = 'utf-8' if not self._encoding_fallback else 'charmap'",
+  "textenc = 'utf-8'", 'C08.f')
+M('C08', 'uid-reader-forgets-fallback', PK, "            self.uid = uid_bytes.decode('charmap')\n            self._encoding_fallback = True",
+  "            self.uid = uid_bytes.decode('charmap')", 'C08.f')
+M('C08', 'uid-fallback-other-codec', PK, "            self.uid = uid_bytes.decode('charmap')\n",
+  "            self.uid = uid_bytes.decode('cp437')\n", 'C08.f')
+M('C08', 'uid-flag-set-on-primary-path', PK, "            self.uid = uid_bytes.decode('utf-8')\n",
+  "            self.uid = uid_bytes.decode('utf-8')\n            self._encoding_fallback = True\n", 'C08.f')
+M('C08', 'filename-latin1-writer', PK, "filename = self.filename.encode('utf-8')",
+  "filename = self.filename.encode('latin-1')", 'C08.f')
+M('C08', 'filename-latin1-reader', PK, 'self.filename = packet[:fnl].decode()',
+  "self.filename = packet[:fnl].decode('latin-1')", 'C08.f')
+M('C08', 'literal-format-utf8-writer', PK, "_bytes += self.format.encode('latin-1')",
+  "_bytes += self.format.encode('utf-8')", 'C08.f')
+M('C08', 'issuer-hex-utf16', SS, '_bytes += binascii.unhexlify(self._issuer.encode())',
+  "_bytes += binascii.unhexlify(self._issuer.encode('utf-16'))", 'C08.f')
+M('C08', 'dispatch-fallback-key-0', TY, '                ncls = MetaDispatchable._registry[(rcls, None)]',
+  '                ncls = MetaDispatchable._registry[(rcls, 0)]', 'C08.g')
+M('C08', 'dispatch-unknown-version-keeps-placeholder', TY, '                    else:  # pragma: no cover\n                        ncls = None\n',
+  '                    else:  # pragma: no cover\n                        pass\n', 'C08.g')
+M('C08', 'dispatch-body-parse-unwrapped', TY, '            try:\n                obj.parse(packet)\n\n            except Exception as ex:\n                raise PGPError(str(ex)) from ex\n',
+  '            obj.parse(packet)\n', 'C08.g')
+M('C08', 'dispatch-body-parse-valueerror', TY, '            try:\n                obj.parse(packet)\n\n            except Exception as ex:\n                raise PGPError(str(ex)) from ex\n',
+  '            try:\n                obj.parse(packet)\n\n            except Exception as ex:\n                raise ValueError(str(ex)) from ex\n', 'C08.g')
+M('C08', 'dispatch-body-parse-swallowed', TY, '            try:\n                obj.parse(packet)\n\n            except Exception as ex:\n                raise PGPError(str(ex)) from ex\n',
+  '            try:\n                obj.parse(packet)\n\n            except Exception as ex:\n                pass\n', 'C08.g')
+M('C08', 'dispatch-version-key-constant', TY, '                        ncls = MetaDispatchable._registry[(rcls, header.typeid, header.version)]',
+  '                        ncls = MetaDispatchable._registry[(rcls, header.typeid, 4)]', 'C08.g')
+M('C08', 'opaque-ignores-version-octet', PT, "        if hasattr(self.header, 'version'):\n            pend -= 1\n\n        self.payload",
+  '        self.payload', 'C08.g')
+M('C08', 'opaque-version-adjust-2', PT, '            pend -= 1\n\n        self.payload',
+  '            pend -= 2\n\n        self.payload', 'C08.g')
+M('C08', 'opaque-payload-transformed', PT, '        self.payload = packet[:pend]\n        del packet[:pend]',
+  '        self.payload = packet[:pend].upper()\n        del packet[:pend]', 'C08.g')
+M('C08', 'trust-typeid-wrong', PK, '    __typeid__ = 0x0C\n',
+  '    __typeid__ = 0x1C\n', 'C08.g')
+M('C08', 'pubsubkeyv4-ver-0', PK, 'class PubSubKeyV4(PubSubKey, PubKeyV4):\n    __ver__ = 4',
+  'class PubSubKeyV4(PubSubKey, PubKeyV4):\n    __ver__ = 0', 'C08.g')
+M('C08', 'onepass-update-before-signer', PGP, '        onepass.signer = self.signer\n        onepass.update_hlen()',
+  '        onepass.update_hlen()\n        onepass.signer = self.signer', 'C08.h')
+M('C08', 'mdc-update-on-wrong-object', PK, '        mdc.update_hlen()\n\n        data += mdc.__bytes__()',
+  '        self.update_hlen()\n\n        data += mdc.__bytes__()', 'C08.h')
+M('C08', 'pubkey-update-only-for-ecdh', PK, '            pk.keymaterial.kdf = copy.copy(self.keymaterial.kdf)\n\n        pk.update_hlen()',
+  '            pk.keymaterial.kdf = copy.copy(self.keymaterial.kdf)\n            pk.update_hlen()', 'C08.h')
+M('C08', 'pubkey-update-before-curve', PK, '        if self.pkalg in {PubKeyAlgorithm.ECDSA, PubKeyAlgorithm.EdDSA}:\n            pk.keymaterial.oid = self.keymaterial.oid\n\n        if self.pkalg == PubKeyAlgorithm.ECDH:\n            pk.keymaterial.oid = self.keymaterial.oid\n            pk.keymaterial.kdf = copy.copy(self.keymaterial.kdf)\n\n        pk.update_hlen()\n        return pk',
+  '        pk.update_hlen()\n        if self.pkalg in {PubKeyAlgorithm.ECDSA, PubKeyAlgorithm.EdDSA}:\n            pk.keymaterial.oid = self.keymaterial.oid\n\n        if self.pkalg == PubKeyAlgorithm.ECDH:\n            pk.keymaterial.oid = self.keymaterial.oid\n            pk.keymaterial.kdf = copy.copy(self.keymaterial.kdf)\n\n        return pk', 'C08.h')
+M('C08', 'sign-update-before-from-signer', PGP, '        sig._signature.signature.from_signer(_sig)\n        sig._signature.update_hlen()',
+  '        sig._signature.update_hlen()\n        sig._signature.signature.from_signer(_sig)', 'C08.h')
+M('C08', 'addnew-update-before-setattr', FL, '        nsp = getattr(self._spmodule, spname)()\n        for p, v in kwargs.items():\n            if hasattr(nsp, p):\n                setattr(nsp, p, v)\n        nsp.update_hlen()',
+  '        nsp = getattr(self._spmodule, spname)()\n        nsp.update_hlen()\n        for p, v in kwargs.items():\n            if hasattr(nsp, p):\n                setattr(nsp, p, v)', 'C08.h')
+M('C08', 'literal-update-before-format', PGP, "            lit.format = format\n\n            # if cls.is_ascii(message):\n            #     lit.format = 't'\n\n            lit.update_hlen()",
+  '            lit.update_hlen()\n            lit.format = format', 'C08.h')
+M('C08', 'protect-no-update', PK, '        self.keymaterial.encrypt_keyblob(passphrase, enc_alg, hash_alg)\n        del passphrase\n        self.update_hlen()',
+  '        self.keymaterial.encrypt_keyblob(passphrase, enc_alg, hash_alg)\n        del passphrase', 'C08.h')
+M('C08', 'compressed-no-update', PGP, '            comp.packets = [pkt for pkt in self]\n            comp.update_hlen()',
+  '            comp.packets = [pkt for pkt in self]', 'C08.h')
+M('C08', 'sigv4-own-length-first', PK, '        self.subpackets.update_hlen()\n        super(SignatureV4, self).update_hlen()',
+  '        super(SignatureV4, self).update_hlen()\n        self.subpackets.update_hlen()', 'C08.h')
+M('C08', 'userattribute-no-inner-update', PK, '        self.subpackets.update_hlen()\n        super(UserAttribute, self).update_hlen()',
+  '        super(UserAttribute, self).update_hlen()', 'C08.h')
+M('C08', 'packet-hlen-includes-header', PT, '        self.header.length = len(self.__bytearray__()) - len(self.header)',
+  '        self.header.length = len(self.__bytearray__())', 'C08.h')
+T('C08', 'twin-uid-codec-if-else', PK, "        textenc = 'utf-8' if not self._encoding_fallback else 'charmap'\n        _bytes += self.uid.encode(textenc)",
+  "        if self._encoding_fallback:\n            _bytes += self.uid.encode('charmap')\n        else:\n            _bytes += self.uid.encode(encoding='utf-8')")
+T('C08', 'twin-uid-flag-is-true', PK, "textenc = 'utf-8' if not self._encoding_fallback else 'charmap'",
+  "textenc = 'charmap' if self._encoding_fallback is True else 'utf-8'")
+T('C08', 'twin-filename-raw-local', PK, '        self.filename = packet[:fnl].decode()\n',
+  "        raw_name = bytes(packet[:fnl])\n        self.filename = raw_name.decode('UTF8')\n")
+T('C08', 'twin-decode-text-inlined', SS, '    def uri_bytearray(self, val):\n        self.uri = self._decode_text(val)',
+  "    def uri_bytearray(self, val):\n        try:\n            text = val.decode('utf-8')\n        except UnicodeDecodeError:\n            text = val.decode('latin-1')\n        self.uri = text")
+T('C08', 'twin-signer-default-codec', PK, 'self.signer.encode("latin-1")',
+  'self.signer.encode()')
+T('C08', 'twin-onepass-renamed-reordered', PGP, '        onepass = OnePassSignatureV3()\n        onepass.sigtype = self.type\n        onepass.halg = self.hash_algorithm\n        onepass.pubalg = self.key_algorithm\n        onepass.signer = self.signer\n        onepass.update_hlen()\n        return onepass',
+  '        ops = OnePassSignatureV3()\n        ops.signer = self.signer\n        ops.pubalg = self.key_algorithm\n        ops.halg = self.hash_algorithm\n        ops.sigtype = self.type\n        pkt = ops\n        pkt.update_hlen()\n        return pkt')
+T('C08', 'twin-uid-new-built-in-local', PGP, "            uid._uid = UserID()\n            uidstr = pn\n            if comment:\n                uidstr += ' (' + comment + ')'\n            if email:\n                uidstr += ' <' + email + '>'\n            uid._uid.uid = uidstr\n            uid._uid.update_hlen()",
+  "            uidstr = pn\n            if comment:\n                uidstr += ' (' + comment + ')'\n            if email:\n                uidstr += ' <' + email + '>'\n            pkt = UserID()\n            pkt.uid = uidstr\n            pkt.update_hlen()\n            uid._uid = pkt")
+T('C08', 'twin-sigv4-explicit-base-call', PK, '        self.subpackets.update_hlen()\n        super(SignatureV4, self).update_hlen()',
+  '        sp = self.subpackets\n        sp.update_hlen()\n        VersionedPacket.update_hlen(self)')
+T('C08', 'twin-hlen-temporaries', PT, '        self.header.length = len(self.__bytearray__()) - len(self.header)',
+  '        body = self.__bytearray__()\n        hdr = len(self.header)\n        self.header.length = -hdr + len(body)')
+T('C08', 'twin-mdc-renamed', PK, "        mdc = MDC()\n        mdc.mdc = binascii.hexlify(hashlib.new('SHA1', data + b'\\xd3\\x14').digest())\n        mdc.update_hlen()\n\n        data += mdc.__bytes__()",
+  "        digest = binascii.hexlify(hashlib.new('SHA1', data + b'\\xd3\\x14').digest())\n        trailer = MDC()\n        trailer.mdc = digest\n        trailer.update_hlen()\n\n        data += trailer.__bytes__()")
+T('C08', 'twin-protect-km-local', PK, '        self.keymaterial.encrypt_keyblob(passphrase, enc_alg, hash_alg)\n        del passphrase\n        self.update_hlen()',
+  '        km = self.keymaterial\n        km.encrypt_keyblob(passphrase, enc_alg, hash_alg)\n        del passphrase\n        self.update_hlen()')
+T('C08', 'twin-opaque-skip-expression', PT, "        pend = self.header.length\n        if hasattr(self.header, 'version'):\n            pend -= 1\n\n        self.payload = packet[:pend]\n        del packet[:pend]",
+  "        skip = 1 if hasattr(self.header, 'version') else 0\n        body_len = self.header.length - skip\n        body = packet[:body_len]\n        del packet[:body_len]\n        self.payload = body")
+T('C08', 'twin-dispatch-registry-local', TY, '            ncls = None\n            if (rcls, header.typeid) in MetaDispatchable._registry:\n                ncls = MetaDispatchable._registry[(rcls, header.typeid)]\n',
+  '            reg = MetaDispatchable._registry\n            ncls = None\n            if (rcls, header.typeid) in reg:\n                ncls = reg[rcls, header.typeid]\n')
+T('C08', 'twin-dispatch-raise-local', TY, '            try:\n                obj.parse(packet)\n\n            except Exception as ex:\n                raise PGPError(str(ex)) from ex\n',
+  '            try:\n                obj.parse(packet)\n\n            except Exception as exc:\n                err = PGPError(str(exc))\n                raise err from exc\n')
+T('C08', 'twin-typeid-folded', PK, '    __typeid__ = 0x0C\n',
+  '    __typeid__ = 8 + 4\n')
+T('C08', 'twin-onepass-merged-del', PK, '        self.sigtype = packet[0]\n        del packet[0]\n\n        self.halg = packet[0]\n        del packet[0]\n\n        self.pubalg = packet[0]\n        del packet[0]\n\n        self.signer = packet[:8]\n        del packet[:8]\n\n        self.nested = (packet[0] == 1)\n        del packet[0]',
+  '        self.sigtype = packet[0]\n        self.halg = packet[1]\n        self.pubalg = packet[2]\n        del packet[:3]\n\n        self.signer = packet[:8]\n        del packet[:8]\n\n        self.nested = (packet[0] == 1)\n        del packet[0]')
+T('C08', 'twin-onepass-all-offsets', PK, '        self.sigtype = packet[0]\n        del packet[0]\n\n        self.halg = packet[0]\n        del packet[0]\n\n        self.pubalg = packet[0]\n        del packet[0]\n\n        self.signer = packet[:8]\n        del packet[:8]\n\n        self.nested = (packet[0] == 1)\n        del packet[0]',
+  '        self.sigtype = packet[0]\n        self.halg = packet[1]\n        self.pubalg = packet[2]\n        self.signer = packet[3:11]\n        self.nested = (packet[11] == 1)\n        del packet[:12]')
+T('C08', 'twin-onepass-temporaries', PK, '        self.sigtype = packet[0]\n        del packet[0]\n\n        self.halg = packet[0]\n        del packet[0]\n\n        self.pubalg = packet[0]\n        del packet[0]\n\n        self.signer = packet[:8]\n        del packet[:8]\n\n        self.nested = (packet[0] == 1)\n        del packet[0]',
+  '        sigtype = packet[0]\n        del packet[0]\n        halg = packet[0]\n        del packet[0]\n        pubalg = packet[0]\n        del packet[0]\n        keyid = packet[:8]\n        del packet[:8]\n        nested_flag = packet[0]\n        del packet[0]\n\n        self.sigtype = sigtype\n        self.halg = halg\n        self.pubalg = pubalg\n        self.signer = keyid\n        self.nested = (nested_flag == 1)')
+T('C08', 'twin-onepass-writer-merged', PK, '        _bytes += bytearray([self.sigtype])\n        _bytes += bytearray([self.halg])\n        _bytes += bytearray([self.pubalg])\n        _bytes += binascii.unhexlify(self.signer.encode("latin-1"))\n        _bytes += bytearray([int(self.nested)])\n        return _bytes',
+  '        _bytes += bytearray([self.sigtype, self.halg, self.pubalg])\n        keyid = binascii.unhexlify(self.signer.encode("latin-1"))\n        _bytes.extend(keyid)\n        _bytes.append(int(self.nested))\n        return _bytes')
+T('C08', 'twin-literal-rest-local', PK, '        self._contents = packet[:self.header.length - (6 + fnl)]\n        del packet[:self.header.length - (6 + fnl)]',
+  '        rest = self.header.length - fnl - 6\n        self._contents = packet[:rest]\n        del packet[:rest]')
+T('C08', 'twin-literal-consumed-sum', PK, '        self._contents = packet[:self.header.length - (6 + fnl)]\n        del packet[:self.header.length - (6 + fnl)]',
+  '        consumed = 1 + 1 + fnl + 4\n        self._contents = packet[:self.header.length - consumed]\n        del packet[:self.header.length - consumed]')
+T('C08', 'twin-literal-name-len-local', PK, "        filename = self.filename.encode('utf-8')\n        _bytes += bytearray([len(filename)])\n        _bytes += filename",
+  "        name_octets = self.filename.encode('utf-8')\n        name_len = len(name_octets)\n        _bytes += self.int_to_bytes(name_len, 1) + name_octets")
+T('C08', 'twin-rsa-parse-locals', FL, '    def parse(self, packet):\n        self.n = MPI(packet)\n        self.e = MPI(packet)\n\n\nclass DSAPub',
+  '    def parse(self, packet):\n        n = MPI(packet)\n        e = MPI(packet)\n        self.n, self.e = n, e\n\n\nclass DSAPub')
+T('C08', 'twin-pubkey-restructured', PK, '        pk = PubKeyV4() if not isinstance(self, PrivSubKeyV4) else PubSubKeyV4()\n        pk.created = self.created\n        pk.pkalg = self.pkalg\n\n        # copy over MPIs\n        for pm in self.keymaterial.__pubfields__:\n            setattr(pk.keymaterial, pm, copy.copy(getattr(self.keymaterial, pm)))\n\n        if self.pkalg in {PubKeyAlgorithm.ECDSA, PubKeyAlgorithm.EdDSA}:\n            pk.keymaterial.oid = self.keymaterial.oid\n\n        if self.pkalg == PubKeyAlgorithm.ECDH:\n            pk.keymaterial.oid = self.keymaterial.oid\n            pk.keymaterial.kdf = copy.copy(self.keymaterial.kdf)\n\n        pk.update_hlen()\n        return pk',
+  '        if isinstance(self, PrivSubKeyV4):\n            pub = PubSubKeyV4()\n        else:\n            pub = PubKeyV4()\n        pub.created = self.created\n        pub.pkalg = self.pkalg\n\n        secret_km = self.keymaterial\n        public_km = pub.keymaterial\n\n        for field in secret_km.__pubfields__:\n            setattr(public_km, field, copy.copy(getattr(secret_km, field)))\n\n        if self.pkalg in {PubKeyAlgorithm.ECDSA, PubKeyAlgorithm.EdDSA, PubKeyAlgorithm.ECDH}:\n            public_km.oid = secret_km.oid\n\n        if self.pkalg == PubKeyAlgorithm.ECDH:\n            public_km.kdf = copy.copy(secret_km.kdf)\n\n        pub.update_hlen()\n        return pub')
+T('C08', 'twin-dispatch-get-and-helper', TY, '            ncls = None\n            if (rcls, header.typeid) in MetaDispatchable._registry:\n                ncls = MetaDispatchable._registry[(rcls, header.typeid)]\n\n                if ncls.__ver__ == 0:\n                    if header.__class__ != ncls.__headercls__:\n                        nh = ncls.__headercls__()\n                        nh.__dict__.update(header.__dict__)\n                        try:\n                            nh.parse(packet)\n\n                        except Exception as ex:\n                            raise PGPError(str(ex)) from ex\n\n                        header = nh\n\n                    if (rcls, header.typeid, header.version) in MetaDispatchable._registry:\n                        ncls = MetaDispatchable._registry[(rcls, header.typeid, header.version)]\n\n                    else:  # pragma: no cover\n                        ncls = None\n\n            if ncls is None:\n                ncls = MetaDispatchable._registry[(rcls, None)]\n',
+  '            registry = MetaDispatchable._registry\n\n            ncls = registry.get((rcls, header.typeid))\n            if ncls is not None and ncls.__ver__ == 0:\n                header = MetaDispatchable._versioned_header(header, ncls, packet)\n                ncls = registry.get((rcls, header.typeid, header.version))\n\n            if ncls is None:\n                ncls = registry[(rcls, None)]\n', more=[(TY, '    def __call__(cls, packet=None):  # NOQA\n', '    @staticmethod\n    def _versioned_header(header, ncls, packet):\n        if header.__class__ != ncls.__headercls__:\n            nh = ncls.__headercls__()\n            nh.__dict__.update(header.__dict__)\n            try:\n                nh.parse(packet)\n\n            except Exception as ex:\n                raise PGPError(str(ex)) from ex\n\n            return nh\n\n        return header\n\n    def __call__(cls, packet=None):  # NOQA\n')])
+T('C08', 'twin-header-first-octet-once', PT, '        self._lenfmt = ((packet[0] & 0x40) >> 6)\n        self.tag = packet[0]\n        if self._lenfmt == 0:\n            self.llen = (packet[0] & 0x03)\n        del packet[0]\n\n        if (self._lenfmt == 0 and self.llen > 0) or self._lenfmt == 1:\n            self.length = packet\n\n        else:\n            # indeterminate packet length\n            self.length = len(packet)\n',
+  '        first_octet = packet[0]\n        self._lenfmt = ((first_octet & 0x40) >> 6)\n        self.tag = first_octet\n        if self._lenfmt == 0:\n            self.llen = (first_octet & 0x03)\n        del packet[0]\n\n        has_length_field = self._lenfmt == 1 or (self._lenfmt == 0 and self.llen > 0)\n        if not has_length_field:\n            # indeterminate packet length\n            self.length = len(packet)\n\n        else:\n            self.length = packet\n')
+T('C08', 'twin-pkesk-pkalg-get', PK, '        ct = _c.get(self._pkalg, None)\n        self.ct = ct() if ct is not None else ct\n',
+  '        ctcls = _c.get(self._pkalg)\n        if ctcls is None:\n            self.ct = None\n\n        else:\n            self.ct = ctcls()\n', more=[(PK, "        _bytes += self.ct.__bytearray__() if self.ct is not None else b'\\x00' * (self.header.length - 10)\n", "        if self.ct is not None:\n            _bytes += self.ct.__bytearray__()\n\n        else:\n            _bytes += b'\\x00' * (self.header.length - 10)\n")])
+T('C08', 'twin-hashed-area-peek-spelling', FL, '        hl = self.bytes_to_int(packet[:2])\n        hashed_raw = packet[:2 + hl]\n        del packet[:2]\n',
+  '        count_octets = packet[:2]\n        hl = self.bytes_to_int(count_octets)\n        area_end = hl + 2\n        hashed_raw = packet[:area_end]\n        del packet[:2]\n')
+T('C08', 'twin-sigv4-fixed-part-tuple', PK, '        self.sigtype = packet[0]\n        del packet[0]\n\n        self.pubalg = packet[0]\n        del packet[0]\n\n        self.halg = packet[0]\n        del packet[0]\n\n        self.subpackets.parse(packet)\n\n        self.hash2 = packet[:2]\n        del packet[:2]\n\n        self.signature.parse(packet)\n',
+  '        sigtype, pubalg, halg = packet[0], packet[1], packet[2]\n        del packet[:3]\n        self.sigtype = sigtype\n        self.pubalg = pubalg\n        self.halg = halg\n\n        sp = self.subpackets\n        sp.parse(packet)\n\n        left16 = packet[:2]\n        del packet[:2]\n        self.hash2 = left16\n\n        self.signature.parse(packet)\n')
+T('C08', 'twin-pubkey-fixed-part-local-body', PK, '        self.created = packet[:4]\n        del packet[:4]\n\n        self.pkalg = packet[0]\n        del packet[0]\n\n        # bound keymaterial to the remaining length of the packet\n        pend = self.header.length - 6\n        self.keymaterial.parse(packet[:pend])\n        del packet[:pend]\n',
+  '        self.created = packet[:4]\n        self.pkalg = packet[4]\n        del packet[:5]\n\n        fixed = 1 + 4 + 1\n        body = packet[:self.header.length - fixed]\n        self.keymaterial.parse(body)\n        del packet[:self.header.length - fixed]\n')
+T('C08', 'twin-pubkey-writer-one-expression', PK, '        _bytes += self.int_to_bytes(calendar.timegm(self.created.utctimetuple()), 4)\n        _bytes += self.int_to_bytes(self.pkalg)\n        _bytes += self.keymaterial.__bytearray__()\n        return _bytes\n\n    def __copy__(self):\n        pk = self.__class__()',
+  '        stamp = calendar.timegm(self.created.utctimetuple())\n        return _bytes + self.int_to_bytes(stamp, 4) + bytearray([self.pkalg]) + self.keymaterial.__bytearray__()\n\n    def __copy__(self):\n        pk = self.__class__()')
+T('C08', 'twin-signer-hex-method', PK, "        self._signer = binascii.hexlify(val).upper().decode('latin-1')",
+  '        self._signer = val.hex().upper()')
+T('C08', 'twin-signer-hex-fromhex', PK, "        self._signer = binascii.hexlify(val).upper().decode('latin-1')",
+  '        self._signer = val.hex().upper()', more=[(PK, '        _bytes += binascii.unhexlify(self.signer.encode("latin-1"))', '        _bytes += bytearray.fromhex(self.signer)')])
+T('C08', 'twin-skesk-remainder-locals', PK, '        ctend = self.header.length - len(self.s2k)\n        self.ct = packet[:ctend]\n        del packet[:ctend]\n',
+  '        s2k_len = len(self.s2k)\n        total = self.header.length\n        self.ct = packet[:total - s2k_len]\n        del packet[:total - s2k_len]\n')
+T('C08', 'twin-elg-alias-guard-clause', FL, '        if not self.s2k:\n            self.x = MPI(packet)\n\n            if self.s2k.usage == 0:\n                self.chksum = packet[:2]\n                del packet[:2]\n\n        else:\n            self.encbytes = packet\n\n    def decrypt_keyblob(self, passphrase):\n        kb = super(ElGPriv, self).decrypt_keyblob(passphrase)',
+  '        if self.s2k:\n            self.encbytes = packet\n            return\n\n        self.x = MPI(packet)\n\n        if self.s2k.usage == 0:\n            cks = packet[:2]\n            del packet[:2]\n            self.chksum = cks\n\n    def decrypt_keyblob(self, passphrase):\n        kb = super(ElGPriv, self).decrypt_keyblob(passphrase)')
+T('C08', 'twin-literal-writer-append-extend', PK, '        _bytes += bytearray([len(filename)])\n        _bytes += filename',
+  '        _bytes.append(len(filename))\n        _bytes.extend(filename)')
+T('C08', 'twin-trust-two-targets-reordered', PK, '        t = self.bytes_to_int(packet[:2])\n        del packet[:2]\n\n        self.trustlevel = t\n        self.trustflags = t',
+  '        raw = packet[:2]\n        del packet[:2]\n        value = self.bytes_to_int(raw)\n\n        self.trustflags = value\n        self.trustlevel = value')
+T('C08', 'twin-onepass-pop-reads', PK, '        self.sigtype = packet[0]\n        del packet[0]\n\n        self.halg = packet[0]\n        del packet[0]\n\n        self.pubalg = packet[0]\n        del packet[0]\n\n        self.signer = packet[:8]\n        del packet[:8]\n\n        self.nested = (packet[0] == 1)\n        del packet[0]',
+  '        self.sigtype = packet.pop(0)\n        self.halg = packet.pop(0)\n        self.pubalg = packet.pop(0)\n\n        self.signer = packet[:8]\n        del packet[:8]\n\n        self.nested = (packet.pop(0) == 1)')
+T('C08', 'twin-onepass-setattr-loop', PK, '        self.sigtype = packet[0]\n        del packet[0]\n\n        self.halg = packet[0]\n        del packet[0]\n\n        self.pubalg = packet[0]\n        del packet[0]\n\n        self.signer = packet[:8]\n        del packet[:8]\n\n        self.nested = (packet[0] == 1)\n        del packet[0]',
+  "        for attr in ('sigtype', 'halg', 'pubalg'):\n            setattr(self, attr, packet[0])\n            del packet[0]\n\n        self.signer = packet[:8]\n        del packet[:8]\n\n        self.nested = (packet[0] == 1)\n        del packet[0]")
+T('C08', 'twin-uri-bytes-constructor', SS, '        _bytes += self.uri.encode()\n        return _bytes',
+  "        _bytes += bytes(self.uri, 'utf-8')\n        return _bytes")
+T('C08', 'twin-filename-str-constructor', PK, '        self.filename = packet[:fnl].decode()\n',
+  "        self.filename = str(packet[:fnl], 'utf-8')\n")
+T('C08', 'twin-literal-empty-early-return', PK, '        self.mtime = packet[:4]\n        del packet[:4]\n\n        self._contents',
+  '        self.mtime = packet[:4]\n        del packet[:4]\n\n        if self.header.length - (6 + fnl) == 0:\n            self._contents = bytearray()\n            return\n\n        self._contents')
+T('C08', 'twin-notation-lengths-to-bytes', SS, '        _bytes += self.int_to_bytes(len(name), 2)\n        _bytes += self.int_to_bytes(len(value), 2)\n',
+  "        _bytes += len(name).to_bytes(2, 'big')\n        _bytes += len(value).to_bytes(2, 'big')\n")
+T('C08', 'twin-seipd-length-locals', PK, '        self.ct = packet[:self.header.length - 1]\n        del packet[:self.header.length - 1]\n\n    def encrypt(self, key, alg, data):',
+  '        hlen = self.header.length\n        body = hlen - 1\n        self.ct = packet[:body]\n        del packet[:body]\n\n    def encrypt(self, key, alg, data):')
+T('C08', 'twin-notation-offset-reads', SS, '        self.flags = packet[:1]\n        del packet[:4]\n        nlen = self.bytes_to_int(packet[:2])\n        del packet[:2]\n        vlen = self.bytes_to_int(packet[:2])\n        del packet[:2]\n',
+  '        self.flags = packet[:1]\n        nlen = self.bytes_to_int(packet[4:6])\n        vlen = self.bytes_to_int(packet[6:8])\n        del packet[:8]\n')
+T('C08', 'twin-hashed-area-count-from-bytes', FL, '        hl = self.bytes_to_int(packet[:2])\n        hashed_raw = packet[:2 + hl]\n        del packet[:2]\n',
+  "        hl = int.from_bytes(packet[:2], 'big')\n        hashed_raw = packet[:2 + hl]\n        del packet[:2]\n")
+T('C08', 'twin-dispatch-factory-staticmethod', TY, '    def __call__(cls, packet=None):  # NOQA\n        def _makeobj(cls):\n            obj = object.__new__(cls)\n            obj.__init__()\n            return obj\n\n',
+  '    @staticmethod\n    def _makeobj(cls):\n        obj = object.__new__(cls)\n        obj.__init__()\n        return obj\n\n    def __call__(cls, packet=None):  # NOQA\n', more=[(TY, '            obj = _makeobj(ncls)\n', '            obj = MetaDispatchable._makeobj(ncls)\n'), (TY, '            obj = _makeobj(cls)\n', '            obj = MetaDispatchable._makeobj(cls)\n')])
+# --- end C08 hardening
 M('C09', 'old-tag-shift', PT, "        tag |= (self.tag) if self._lenfmt else ((self.tag << 2) | {1: 0, 2: 1, 4: 2, 0: 3}[self.llen])", "        tag |= (self.tag) if self._lenfmt else ((self.tag << 1) | {1: 0, 2: 1, 4: 2, 0: 3}[self.llen])", 'C09.8')
 M('C09', 'tag-mask-1f', PT, "        _tag = (val & 0x3F) if self._lenfmt else ((val & 0x3C) >> 2)", "        _tag = (val & 0x1F) if self._lenfmt else ((val & 0x3C) >> 2)", 'C09.8')
 M('C09', 'partial-del-one', TY, "                    del b[total:total + size]", "                    del b[total:total + 1]", 'C09.8')
@@ -1406,3 +2911,243 @@ T('C18', 'twin-pubkey-class-via-local', PK, "        pk = PubKeyV4() if not isin
 M('C18', 'pubkey-class-via-local-keeps-private-subkey', PK, "        pk = PubKeyV4() if not isinstance(self, PrivSubKeyV4) else PubSubKeyV4()\n", "        klass = PrivSubKeyV4 if isinstance(self, PrivSubKeyV4) else PubKeyV4\n        pk = klass()\n", 'C18.6')
 T('C18', 'twin-keyid-of-plain-text', TY, "        return self[-16:]", "        return str(self)[-16:]",
   more=[(PGP, "        if self._key:\n            return self._key.fingerprint\n", "        return self._key.fingerprint if self._key else None\n")])
+# =============================================================================================== C14 / C20 hardening (semantic rules)
+# ---- C14.1 export grammar and filters: loops with guard clauses / nested ifs / chunk lists are the same term as the comprehension
+EXPORT = ("        _bytes = bytearray()\n        # us\n        _bytes += self._key.__bytearray__()\n        # our signatures; ignore embedded signatures\n"
+          "        for sig in iter(s for s in self._signatures if not s.embedded and s.exportable):\n            _bytes += sig.__bytearray__()\n"
+          "        # one or more User IDs, followed by their signatures\n        for uid in self._uids:\n            _bytes += uid._uid.__bytearray__()\n"
+          "            for s in [s for s in uid._signatures if s.exportable]:\n                _bytes += s.__bytearray__()\n"
+          "        # subkeys\n        for sk in self._children.values():\n            _bytes += sk.__bytearray__()\n\n        return _bytes\n")
+KEYSIGS = "        for sig in iter(s for s in self._signatures if not s.embedded and s.exportable):\n            _bytes += sig.__bytearray__()\n"
+UIDSIGS = "            for s in [s for s in uid._signatures if s.exportable]:\n                _bytes += s.__bytearray__()\n"
+T('C14', 'twin-export-chunks-joined', PGP, EXPORT,
+  "        chunks = []\n        chunks.append(self._key.__bytearray__())\n        for sig in self._signatures:\n            if sig.embedded or not sig.exportable:\n                continue\n"
+  "            chunks.append(sig.__bytearray__())\n        for uid in self._uids:\n            chunks.append(uid._uid.__bytearray__())\n"
+  "            exportable = [s for s in uid._signatures if s.exportable]\n            chunks.extend(s.__bytearray__() for s in exportable)\n"
+  "        chunks.extend(sk.__bytearray__() for sk in self._children.values())\n\n        return bytearray().join(chunks)\n")
+T('C14', 'twin-export-guard-clauses', PGP, KEYSIGS,
+  "        for keysig in self._signatures:\n            if keysig.embedded:\n                continue\n            if not keysig.exportable:\n                continue\n            _bytes += keysig.__bytearray__()\n")
+T('C14', 'twin-export-nested-if', PGP, KEYSIGS,
+  "        for keysig in self._signatures:\n            if keysig.exportable:\n                if not keysig.embedded:\n                    _bytes += keysig.__bytearray__()\n")
+T('C14', 'twin-export-demorgan', PGP, KEYSIGS,
+  "        for keysig in self._signatures:\n            if not (keysig.embedded or not keysig.exportable):\n                _bytes += keysig.__bytearray__()\n")
+T('C14', 'twin-export-uidsigs-plain-loop', PGP, UIDSIGS,
+  "            for certification in uid._signatures:\n                if not certification.exportable:\n                    continue\n                _bytes += certification.__bytearray__()\n")
+T('C14', 'twin-export-subkeys-items', PGP, "        for sk in self._children.values():\n            _bytes += sk.__bytearray__()\n\n        return _bytes",
+  "        for _keyid, subkey in self._children.items():\n            _bytes += subkey.__bytearray__()\n\n        return _bytes")
+M('C14', 'export-or-filter', PGP, KEYSIGS, "        for sig in iter(s for s in self._signatures if not s.embedded or s.exportable):\n            _bytes += sig.__bytearray__()\n", 'C14.1')
+M('C14', 'export-guard-wrong-polarity', PGP, KEYSIGS,
+  "        for sig in self._signatures:\n            if sig.embedded or sig.exportable:\n                continue\n            _bytes += sig.__bytearray__()\n", 'C14.1')
+M('C14', 'export-guard-exportable-dropped', PGP, KEYSIGS,
+  "        for sig in self._signatures:\n            if sig.embedded:\n                continue\n            _bytes += sig.__bytearray__()\n", 'C14.1')
+M('C14', 'export-uid-gets-key-sigs', PGP, UIDSIGS, "            for s in [s for s in self._signatures if s.exportable]:\n                _bytes += s.__bytearray__()\n", 'C14.1')
+M('C14', 'export-unsigned-uids-dropped', PGP, "        for uid in self._uids:\n            _bytes += uid._uid.__bytearray__()\n            for s in [s",
+  "        for uid in self._uids:\n            if not uid._signatures:\n                continue\n            _bytes += uid._uid.__bytearray__()\n            for s in [s", 'C14.1')
+M('C14', 'export-uid-sigs-expired-dropped', PGP, UIDSIGS, "            for s in [s for s in uid._signatures if s.exportable and not s.is_expired]:\n                _bytes += s.__bytearray__()\n", 'C14.1')
+# ---- C14.2
+EXPORTABLE = "        if 'ExportableCertification' in self._signature.subpackets:\n            return bool(next(iter(self._signature.subpackets['ExportableCertification'])))\n\n        return True\n"
+T('C14', 'twin-exportable-inverted-guard', PGP, EXPORTABLE,
+  "        subpackets = self._signature.subpackets\n        if 'ExportableCertification' not in subpackets:\n            return True\n\n        return bool(next(iter(subpackets['ExportableCertification'])))\n")
+T('C14', 'twin-exportable-conditional-expression', PGP, EXPORTABLE,
+  "        sp = self._signature.subpackets\n        return bool(next(iter(sp['ExportableCertification']))) if 'ExportableCertification' in sp else True\n")
+T('C14', 'twin-exportable-first-element', PGP, EXPORTABLE,
+  "        if 'ExportableCertification' in self._signature.subpackets:\n            return self._signature.subpackets['ExportableCertification'][0].bflag\n\n        return True\n")
+M('C14', 'exportable-inverted-default-false', PGP, EXPORTABLE,
+  "        subpackets = self._signature.subpackets\n        if 'ExportableCertification' not in subpackets:\n            return False\n\n        return bool(next(iter(subpackets['ExportableCertification'])))\n", 'C14.2')
+M('C14', 'exportable-flag-negated', PGP, EXPORTABLE,
+  "        if 'ExportableCertification' in self._signature.subpackets:\n            return not next(iter(self._signature.subpackets['ExportableCertification']))\n\n        return True\n", 'C14.2')
+M('C14', 'exportable-wrong-subpacket', PGP, EXPORTABLE,
+  "        if 'ExportableCertification' in self._signature.subpackets:\n            return bool(next(iter(self._signature.subpackets['Revocable'])))\n\n        return True\n", 'C14.2')
+T('C14', 'twin-boolean-param-rename', SS, "    def bflag_bytearray(self, val):\n        self.bflag = bool(self.bytes_to_int(val))", "    def bflag_bytearray(self, octets):\n        self.bflag = self.bytes_to_int(octets) != 0")
+M('C14', 'boolean-bool-setter-other-attr', SS, "    def bflag_bool(self, val):\n        self._bool = val", "    def bflag_bool(self, val):\n        self._bflag = val", 'C14.2')
+# ---- C14.3
+GROUPS = "            for group in iter(group for _, group in itertools.groupby(getpkt, key=pktgrouper()) if not _.endswith('Opaque')):\n                pkt = next(group)\n"
+ATTACH = "                [ operator.ior(pgpobj, PGPSignature() | sig) for sig in group if not isinstance(sig, Opaque) ]\n"
+TRUST = "        getpkt = filter(lambda p: p.header.tag != PacketTag.Trust, iter(functools.partial(_getpkt, data), None))\n"
+GROUPER = "                    if pkt.header.tag != PacketTag.Signature:\n                        self.last = '{:02X}_{:s}'.format(id(pkt), pkt.__class__.__name__)\n                    return self.last\n"
+FILING = ("                if isinstance(pgpobj, PGPKey):\n                    if pgpobj.is_primary:\n                        keys[(pgpobj.fingerprint.keyid, pgpobj.is_public)] = pgpobj\n\n"
+          "                    else:\n                        keys[next(reversed(keys))] |= pgpobj\n\n                elif isinstance(pgpobj, PGPUID):\n"
+          "                    # parent is likely the most recently parsed primary key\n                    keys[next(reversed(keys))] |= pgpobj\n\n"
+          "                else:  # pragma: no cover\n                    break\n")
+T('C14', 'twin-groups-plain-loop', PGP, GROUPS,
+  "            for groupname, group in itertools.groupby(getpkt, key=pktgrouper()):\n                if groupname.endswith('Opaque'):\n                    continue\n\n                pkt = next(group)\n")
+T('C14', 'twin-attach-plain-loop', PGP, ATTACH,
+  "                for sig in group:\n                    if isinstance(sig, Opaque):\n                        continue\n                    pgpobj |= PGPSignature() | sig\n")
+T('C14', 'twin-attach-guarded-loop', PGP, ATTACH,
+  "                for sigpkt in group:\n                    if not isinstance(sigpkt, Opaque):\n                        pgpobj |= PGPSignature() | sigpkt\n")
+T('C14', 'twin-attach-mapped-loop', PGP, ATTACH,
+  "                for pgpsig in (PGPSignature() | s for s in group if not isinstance(s, Opaque)):\n                    pgpobj |= pgpsig\n")
+T('C14', 'twin-trust-generator-expression', PGP, TRUST,
+  "        getpkt = (p for p in iter(functools.partial(_getpkt, data), None) if p.header.tag != PacketTag.Trust)\n")
+T('C14', 'twin-trust-not-eq', PGP, TRUST,
+  "        packets = iter(functools.partial(_getpkt, data), None)\n        getpkt = filter(lambda pkt: not pkt.header.tag == PacketTag.Trust, packets)\n")
+T('C14', 'twin-grouper-early-return', PGP, GROUPER,
+  "                    if pkt.header.tag == PacketTag.Signature:\n                        return self.last\n                    self.last = '{:02X}_{:s}'.format(id(pkt), pkt.__class__.__name__)\n                    return self.last\n")
+T('C14', 'twin-filing-merged-arms', PGP, FILING,
+  "                if isinstance(pgpobj, PGPKey) and pgpobj.is_primary:\n                    keys[(pgpobj.fingerprint.keyid, pgpobj.is_public)] = pgpobj\n\n"
+  "                elif isinstance(pgpobj, (PGPKey, PGPUID)):\n                    # parent is likely the most recently parsed primary key\n                    latest = next(reversed(keys))\n                    keys[latest] |= pgpobj\n\n"
+  "                else:  # pragma: no cover\n                    break\n")
+T('C14', 'twin-head-if-statement', PGP, "                    pgpobj = (self if self._key is None else PGPKey()) | pkt\n",
+  "                    if self._key is None:\n                        owner = self\n                    else:\n                        owner = PGPKey()\n                    pgpobj = owner | pkt\n")
+M('C14', 'attach-to-self', PGP, ATTACH, "                [ operator.ior(self, PGPSignature() | sig) for sig in group if not isinstance(sig, Opaque) ]\n", 'C14.3')
+M('C14', 'attach-loop-stops-at-opaque', PGP, ATTACH,
+  "                for sig in group:\n                    if isinstance(sig, Opaque):\n                        break\n                    pgpobj |= PGPSignature() | sig\n", 'C14.3')
+M('C14', 'attach-only-certifications', PGP, ATTACH,
+  "                for sig in group:\n                    if isinstance(sig, Opaque) or sig.sigtype == SignatureType.Timestamp:\n                        continue\n                    pgpobj |= PGPSignature() | sig\n", 'C14.3')
+M('C14', 'user-attribute-groups-skipped', PGP, GROUPS,
+  "            for group in iter(group for _, group in itertools.groupby(getpkt, key=pktgrouper()) if not _.endswith(('Opaque', 'UserAttribute'))):\n                pkt = next(group)\n", 'C14.3')
+M('C14', 'opaque-groups-kept', PGP, GROUPS,
+  "            for group in iter(group for _, group in itertools.groupby(getpkt, key=pktgrouper())):\n                pkt = next(group)\n", 'C14.3')
+M('C14', 'trust-filter-marker', PGP, TRUST, "        getpkt = filter(lambda p: p.header.tag != PacketTag.Marker, iter(functools.partial(_getpkt, data), None))\n", 'C14.3')
+M('C14', 'trust-filter-also-drops-attributes', PGP, TRUST,
+  "        getpkt = filter(lambda p: p.header.tag not in (PacketTag.Trust, PacketTag.UserAttribute), iter(functools.partial(_getpkt, data), None))\n", 'C14.3')
+M('C14', 'grouper-class-name-only', PGP, GROUPER,
+  "                    if pkt.header.tag != PacketTag.Signature:\n                        self.last = pkt.__class__.__name__\n                    return self.last\n", 'C14.3')
+M('C14', 'grouper-splits-on-trust', PGP, GROUPER,
+  "                    if pkt.header.tag not in (PacketTag.Signature, PacketTag.UserAttribute):\n                        self.last = '{:02X}_{:s}'.format(id(pkt), pkt.__class__.__name__)\n                    return self.last\n", 'C14.3')
+M('C14', 'subkey-to-first-key', PGP, "                    else:\n                        keys[next(reversed(keys))] |= pgpobj\n", "                    else:\n                        keys[next(iter(keys))] |= pgpobj\n", 'C14.3')
+M('C14', 'subkey-filed-as-key', PGP, "                    if pgpobj.is_primary:\n                        keys[(pgpobj.fingerprint.keyid, pgpobj.is_public)] = pgpobj\n\n                    else:\n                        keys[next(reversed(keys))] |= pgpobj\n",
+  "                    keys[(pgpobj.fingerprint.keyid, pgpobj.is_public)] = pgpobj\n", 'C14.3')
+# ---- C14.4
+KEYCOPY_SIGS = "        for sig in self._signatures:\n            if sig.embedded:\n                # embedded signatures don't need to be explicitly copied\n                continue\n\n            key |= copy.copy(sig)\n"
+T('C14', 'twin-copy-values-and-guard', PGP, "        for id, subkey in self._children.items():\n            key |= copy.copy(subkey)\n\n" + KEYCOPY_SIGS,
+  "        for subkey in self._children.values():\n            key |= copy.copy(subkey)\n\n        for sig in self._signatures:\n            if not sig.embedded:\n                key |= copy.copy(sig)\n")
+T('C14', 'twin-copy-mapped', PGP, "        for uid in self._uids:\n            key |= copy.copy(uid)\n", "        for uidcopy in [copy.copy(u) for u in self._uids]:\n            key |= uidcopy\n")
+T('C14', 'twin-copy-renamed-result', PGP, "        key = super(PGPKey, self).__copy__()\n        key._key = copy.copy(self._key)\n\n        for uid in self._uids:\n            key |= copy.copy(uid)\n\n        for id, subkey in self._children.items():\n            key |= copy.copy(subkey)\n\n" + KEYCOPY_SIGS + "\n        return key\n",
+  "        dup = super().__copy__()\n        keypkt = copy.copy(self._key)\n        dup._key = keypkt\n\n        for uid in self._uids:\n            dup |= copy.copy(uid)\n\n        for subkey in self._children.values():\n            dup |= copy.copy(subkey)\n\n"
+  "        for sig in (s for s in self._signatures if not s.embedded):\n            dup |= copy.copy(sig)\n\n        return dup\n")
+M('C14', 'copy-skips-nonexportable', PGP, KEYCOPY_SIGS, "        for sig in self._signatures:\n            if sig.embedded or not sig.exportable:\n                continue\n\n            key |= copy.copy(sig)\n", 'C14.4')
+M('C14', 'copy-shares-signatures', PGP, KEYCOPY_SIGS, "        for sig in self._signatures:\n            if sig.embedded:\n                continue\n\n            key |= sig\n", 'C14.4')
+M('C14', 'copy-only-self-certified-uids', PGP, "        for uid in self._uids:\n            key |= copy.copy(uid)\n", "        for uid in self._uids:\n            if uid.selfsig is None:\n                continue\n            key |= copy.copy(uid)\n", 'C14.4')
+M('C14', 'uid-copy-shares-packet', PGP, "        uid |= copy.copy(self._uid)\n        for sig in self._signatures:", "        uid |= self._uid\n        for sig in self._signatures:", 'C14.4')
+M('C14', 'sig-copy-shares-packet', PGP, "        sig |= copy.copy(self._signature)\n        return sig", "        sig |= self._signature\n        return sig", 'C14.4')
+T('C14', 'twin-uid-copy-renamed', PGP, "        uid = PGPUID()\n        uid |= copy.copy(self._uid)\n        for sig in self._signatures:\n            uid |= copy.copy(sig)\n        return uid",
+  "        dup = PGPUID()\n        pkt = copy.copy(self._uid)\n        dup |= pkt\n        for certification in self._signatures:\n            dup |= copy.copy(certification)\n        return dup")
+# ---- C14.5
+EMBED = ("            if other.type == SignatureType.Subkey_Binding:\n                for es in iter(pkb for pkb in other._signature.subpackets['EmbeddedSignature']):\n"
+         "                    esig = PGPSignature() | es\n                    esig._parent = other\n                    self._signatures.insort(esig)\n")
+T('C14', 'twin-embedded-helper-method', PGP, "            self._signatures.insort(other)\n\n            # if this is a subkey binding signature that has embedded primary key binding signatures, add them to parent\n" + EMBED,
+  "            self._signatures.insort(other)\n            self._attach_embedded_signatures(other)\n",
+  more=[(PGP, "    def __or__(self, other, from_sib=False):\n        if isinstance(other, Key) and self._key is None:",
+         "    def _attach_embedded_signatures(self, binding):\n        if binding.type != SignatureType.Subkey_Binding:\n            return\n\n"
+         "        for sigpkt in binding._signature.subpackets['EmbeddedSignature']:\n            embedded = PGPSignature() | sigpkt\n            embedded._parent = binding\n            self._signatures.insort(embedded)\n\n"
+         "    def __or__(self, other, from_sib=False):\n        if isinstance(other, Key) and self._key is None:")])
+T('C14', 'twin-embedded-plain-loop', PGP, EMBED,
+  "            if SignatureType.Subkey_Binding == other.type:\n                for crosssig in other._signature.subpackets['EmbeddedSignature']:\n"
+  "                    pkb = PGPSignature() | crosssig\n                    self._signatures.insort(pkb)\n                    pkb._parent = other\n")
+T('C14', 'twin-uid-or-merged-arms', PGP, "        if isinstance(other, UserID) and self._uid is None:\n            self._uid = other\n            return self\n\n        if isinstance(other, UserAttribute) and self._uid is None:\n            self._uid = other\n            return self\n",
+  "        if isinstance(other, (UserID, UserAttribute)) and self._uid is None:\n            self._uid = other\n            return self\n")
+M('C14', 'embedded-parent-is-key', PGP, "                    esig._parent = other\n", "                    esig._parent = self\n", 'C14.5')
+M('C14', 'embedded-not-inserted', PGP, "                    esig._parent = other\n                    self._signatures.insort(esig)\n", "                    esig._parent = other\n", 'C14.5')
+M('C14', 'embedded-on-key-revocation', PGP, "            if other.type == SignatureType.Subkey_Binding:\n                for es in iter(pkb", "            if other.type == SignatureType.SubkeyRevocation:\n                for es in iter(pkb", 'C14.5')
+M('C14', 'embedded-first-only', PGP, "                for es in iter(pkb for pkb in other._signature.subpackets['EmbeddedSignature']):", "                for es in other._signature.subpackets['EmbeddedSignature'][:1]:", 'C14.5')
+M('C14', 'subkey-under-parent-keyid', PGP, "            self._children[other.fingerprint.keyid] = other\n", "            self._children[self.fingerprint.keyid] = other\n", 'C14.5')
+M('C14', 'uid-not-linked', PGP, "            other._parent = weakref.ref(self)\n            self._uids.insort(other)\n", "            self._uids.insort(other)\n", 'C14.5')
+M('C14', 'uid-signature-appended-left', PGP, "        if isinstance(other, PGPSignature):\n            self._signatures.insort(other)\n            if self.parent is not None and self in self.parent._uids:", "        if isinstance(other, PGPSignature):\n            self._signatures.appendleft(other)\n            if self.parent is not None and self in self.parent._uids:", 'C14.5')
+
+# ---- C20
+OPSLOOP = ("            for sig in reversed(self._signatures):\n                ops = sig.make_onepass()\n                # only the last one-pass packet, the one directly before the signed data, is flagged\n"
+           "                if sig is self._signatures[0]:\n                    ops.nested = True\n                yield ops\n")
+T('C20', 'twin-iter-helper-generator', PGP, "    def __iter__(self):\n        if self.type == 'cleartext':\n            for sig in self._signatures:\n                yield sig\n\n        elif self.is_encrypted:\n            for sig in self._signatures:\n                yield sig\n            for pkt in self._sessionkeys:\n                yield pkt\n            yield self.message\n\n        else:\n            ##TODO: is it worth coming up with a way of disabling one-pass signing?\n" + OPSLOOP +
+  "\n            yield self._message\n            if self._mdc is not None:  # pragma: no cover\n                yield self._mdc\n\n            for sig in self._signatures:\n                yield sig\n",
+  "    def _onepass_headers(self):\n        for sig in reversed(self._signatures):\n            ops = sig.make_onepass()\n            if sig is self._signatures[0]:\n                ops.nested = True\n            yield ops\n\n"
+  "    def __iter__(self):\n        if self.type == 'cleartext':\n            for sig in self._signatures:\n                yield sig\n            return\n\n        if self.is_encrypted:\n            for sig in self._signatures:\n                yield sig\n            for pkt in self._sessionkeys:\n                yield pkt\n            yield self.message\n            return\n\n"
+  "        for ops in self._onepass_headers():\n            yield ops\n\n        yield self._message\n        if self._mdc is not None:  # pragma: no cover\n            yield self._mdc\n\n        for sig in self._signatures:\n            yield sig\n")
+T('C20', 'twin-flag-operands-swapped', PGP, OPSLOOP,
+  "            oldest = self._signatures[0]\n            for signature in reversed(self._signatures):\n                header = signature.make_onepass()\n                if oldest is signature:\n                    header.nested = True\n                yield header\n")
+T('C20', 'twin-flag-assigned-condition', PGP, OPSLOOP,
+  "            for sig in reversed(self._signatures):\n                ops = sig.make_onepass()\n                ops.nested = sig is self._signatures[0]\n                yield ops\n")
+T('C20', 'twin-flag-not-last-else', PGP, OPSLOOP,
+  "            for sig in reversed(self._signatures):\n                ops = sig.make_onepass()\n                if sig is not self._signatures[0]:\n                    pass\n                else:\n                    ops.nested = True\n                yield ops\n")
+M('C20', 'flag-on-creation-time-tie', PGP, OPSLOOP.split('                if sig')[0] + "                if sig.created == self._signatures[0].created:\n                    ops.nested = True\n                yield ops\n" if False else
+  "                if sig is self._signatures[0]:\n                    ops.nested = True\n                yield ops", "                if sig.created == self._signatures[0].created:\n                    ops.nested = True\n                yield ops", 'C20.4')
+M('C20', 'flag-set-on-other-packet', PGP, "                if sig is self._signatures[0]:\n                    ops.nested = True\n                yield ops", "                if sig is self._signatures[0]:\n                    sig.make_onepass().nested = True\n                yield ops", 'C20.4')
+M('C20', 'flag-assigned-negated', PGP, OPSLOOP,
+  "            for sig in reversed(self._signatures):\n                ops = sig.make_onepass()\n                ops.nested = sig is not self._signatures[0]\n                yield ops\n", 'C20.4')
+M('C20', 'ops-from-first-signature', PGP, "            for sig in reversed(self._signatures):\n                ops = sig.make_onepass()\n", "            for sig in reversed(self._signatures):\n                ops = self._signatures[0].make_onepass()\n", 'C20')
+M('C20', 'nested-default-true', PK, "        self._signer = b'\\x00' * 8\n        self.nested = False", "        self._signer = b'\\x00' * 8\n        self.nested = True", 'C20.4')
+M('C20', 'onepass-sigtype-constant', PGP, "        onepass.sigtype = self.type\n", "        onepass.sigtype = SignatureType.BinaryDocument\n", 'C20.3')
+T('C20', 'twin-onepass-renamed', PGP, "        onepass = OnePassSignatureV3()\n        onepass.sigtype = self.type\n        onepass.halg = self.hash_algorithm\n        onepass.pubalg = self.key_algorithm\n        onepass.signer = self.signer\n        onepass.update_hlen()\n        return onepass",
+  "        ops = OnePassSignatureV3()\n        keyid = self.signer\n        ops.signer = keyid\n        ops.pubalg = self.key_algorithm\n        ops.halg = self.hash_algorithm\n        ops.sigtype = self.type\n        ops.update_hlen()\n        return ops")
+MSGBYTES = "        _bytes = bytearray()\n        for pkt in self:\n            _bytes += pkt.__bytearray__()\n        return _bytes\n\n    def __str__(self):\n        if self.type == 'cleartext':"
+T('C20', 'twin-message-bytes-join', PGP, MSGBYTES, "        return bytearray().join(pkt.__bytearray__() for pkt in self)\n\n    def __str__(self):\n        if self.type == 'cleartext':")
+T('C20', 'twin-compressed-bytes-join', PK, "        _pb = bytearray()\n        for pkt in self.packets:\n            _pb += pkt.__bytearray__()\n        _bytes += self.calg.compress(bytes(_pb))",
+  "        _pb = b''.join(pkt.__bytearray__() for pkt in self.packets)\n        _bytes += self.calg.compress(_pb)")
+T('C20', 'twin-ops-bytes-one-append', PK, "        _bytes += bytearray([self.sigtype])\n        _bytes += bytearray([self.halg])\n        _bytes += bytearray([self.pubalg])\n        _bytes += binascii.unhexlify(self.signer.encode(\"latin-1\"))\n        _bytes += bytearray([int(self.nested)])",
+  "        _bytes += bytearray([self.sigtype, self.halg, self.pubalg])\n        _bytes += binascii.unhexlify(self.signer.encode(\"latin-1\")) + bytearray([int(self.nested)])")
+T('C20', 'twin-compressed-object-renamed', PGP, "            comp = CompressedData()\n            comp.calg = self._compression\n            comp.packets = [pkt for pkt in self]\n            comp.update_hlen()\n            return comp.__bytearray__()",
+  "            container = CompressedData()\n            container.packets = list(self)\n            container.calg = self._compression\n            container.update_hlen()\n            return container.__bytearray__()")
+M('C20', 'compressed-hlen-before-packets', PGP, "            comp.packets = [pkt for pkt in self]\n            comp.update_hlen()\n", "            comp.update_hlen()\n            comp.packets = [pkt for pkt in self]\n", 'C20.5')
+M('C20', 'message-bytes-skip-mdc', PGP, MSGBYTES, "        return bytearray().join(pkt.__bytearray__() for pkt in self if pkt is not self._mdc)\n\n    def __str__(self):\n        if self.type == 'cleartext':", 'C20.5')
+T('C20', 'twin-is-compressed-if-form', PGP, "        return self._compression != CompressionAlgorithm.Uncompressed", "        if self._compression == CompressionAlgorithm.Uncompressed:\n            return False\n        return True")
+M('C20', 'is-compressed-zip-only', PGP, "        return self._compression != CompressionAlgorithm.Uncompressed", "        return self._compression == CompressionAlgorithm.ZIP", 'C20.5')
+ORCOMP = "            self._compression = other.calg\n            for pkt in other.packets:\n                self |= pkt\n            return self\n"
+T('C20', 'twin-or-compressed-renamed', PGP, ORCOMP, "            algorithm = other.calg\n            for inner in other.packets:\n                self |= inner\n            self._compression = algorithm\n            return self\n")
+M('C20', 'or-compressed-first-packet-only', PGP, ORCOMP, "            self._compression = other.calg\n            for pkt in other.packets[:1]:\n                self |= pkt\n            return self\n", 'C20.5')
+M('C20', 'or-compressed-skips-signatures', PGP, ORCOMP, "            self._compression = other.calg\n            for pkt in other.packets:\n                if isinstance(pkt, Signature):\n                    continue\n                self |= pkt\n            return self\n", 'C20.5')
+M('C20', 'compressed-packet-first-only', PK, "        for pkt in self.packets:\n            _pb += pkt.__bytearray__()\n        _bytes += self.calg.compress(bytes(_pb))", "        for pkt in self.packets[:1]:\n            _pb += pkt.__bytearray__()\n        _bytes += self.calg.compress(bytes(_pb))", 'C20.5')
+LITTAIL = "        self._contents = packet[:self.header.length - (6 + fnl)]\n        del packet[:self.header.length - (6 + fnl)]\n"
+T('C20', 'twin-literal-length-temporary', PK, LITTAIL, "        clen = self.header.length - (6 + fnl)\n        self._contents = packet[:clen]\n        del packet[:clen]\n")
+T('C20', 'twin-literal-length-respelled', PK, "        fnl = packet[0]\n        del packet[0]\n\n        self.filename = packet[:fnl].decode()\n        del packet[:fnl]\n\n        self.mtime = packet[:4]\n        del packet[:4]\n\n" + LITTAIL,
+  "        namelen = packet[0]\n        del packet[0]\n\n        self.filename = packet[:namelen].decode('utf-8')\n        del packet[:namelen]\n\n        self.mtime = packet[:4]\n        del packet[:4]\n\n"
+  "        remaining = self.header.length - namelen - 6\n        self._contents = packet[:remaining]\n        del packet[:remaining]\n")
+M('C20', 'literal-contents-len-5', PK, LITTAIL, "        self._contents = packet[:self.header.length - (5 + fnl)]\n        del packet[:self.header.length - (5 + fnl)]\n", 'C20.6')
+M('C20', 'literal-reader-latin1', PK, "        self.filename = packet[:fnl].decode()\n", "        self.filename = packet[:fnl].decode('latin-1')\n", 'C20.6')
+M('C20', 'literal-time-before-name', PK, "        self.filename = packet[:fnl].decode()\n        del packet[:fnl]\n\n        self.mtime = packet[:4]\n        del packet[:4]\n", "        self.mtime = packet[:4]\n        del packet[:4]\n\n        self.filename = packet[:fnl].decode()\n        del packet[:fnl]\n", 'C20.6')
+M('C20', 'ops-reader-pubalg-before-halg', PK, "        self.halg = packet[0]\n        del packet[0]\n\n        self.pubalg = packet[0]\n        del packet[0]\n\n        self.signer = packet[:8]", "        self.pubalg = packet[0]\n        del packet[0]\n\n        self.halg = packet[0]\n        del packet[0]\n\n        self.signer = packet[:8]", 'C20.6')
+M('C20', 'ops-reader-flag-inverted', PK, "        self.nested = (packet[0] == 1)\n", "        self.nested = (packet[0] == 0)\n", 'C20.6')
+T('C20', 'twin-ops-reader-renamed-buffer', PK, "    def parse(self, packet):\n        super(OnePassSignatureV3, self).parse(packet)\n        self.sigtype = packet[0]\n        del packet[0]\n\n        self.halg = packet[0]\n        del packet[0]\n\n        self.pubalg = packet[0]\n        del packet[0]\n\n        self.signer = packet[:8]\n        del packet[:8]\n\n        self.nested = (packet[0] == 1)\n        del packet[0]\n",
+  "    def parse(self, buf):\n        super().parse(buf)\n        self.sigtype = buf[0]\n        del buf[0]\n\n        self.halg = buf[0]\n        del buf[0]\n\n        self.pubalg = buf[0]\n        del buf[0]\n\n        self.signer = buf[:8]\n        del buf[:8]\n\n        self.nested = buf[0] != 0\n        del buf[0]\n")
+NEWLIT = ("            lit = LiteralData()\n            lit._contents = bytearray(msg.text_to_bytes(message))\n            lit.filename = '_CONSOLE' if sensitive else os.path.basename(filename)\n"
+          "            lit.mtime = mtime\n            lit.format = format\n")
+T('C20', 'twin-new-literal-renamed', PGP, NEWLIT + "\n            # if cls.is_ascii(message):\n            #     lit.format = 't'\n\n            lit.update_hlen()\n\n            msg |= lit\n",
+  "            body = msg.text_to_bytes(message)\n            if sensitive:\n                litname = '_CONSOLE'\n            else:\n                litname = os.path.basename(filename)\n            literal = LiteralData()\n            literal._contents = bytearray(body)\n"
+  "            literal.filename = litname\n            literal.mtime = mtime\n            literal.format = format\n\n            literal.update_hlen()\n\n            msg |= literal\n")
+M('C20', 'new-compression-forced-zip', PGP, "            msg |= lit\n            msg._compression = compression\n", "            msg |= lit\n            msg._compression = CompressionAlgorithm.ZIP\n", 'C20.6')
+M('C20', 'new-sensitive-inverted', PGP, "            lit.filename = '_CONSOLE' if sensitive else os.path.basename(filename)", "            lit.filename = os.path.basename(filename) if sensitive else '_CONSOLE'", 'C20.6')
+M('C20', 'new-no-update-hlen', PGP, "            lit.update_hlen()\n\n            msg |= lit\n", "            msg |= lit\n", 'C20.6')
+T('C20', 'twin-trailing-yield-from', PGP, "            for sig in self._signatures:\n                yield sig\n\n    def __or__(self, other):\n        if isinstance(other, Marker):", "            yield from self._signatures\n\n    def __or__(self, other):\n        if isinstance(other, Marker):")
+T('C20', 'twin-ops-reversed-copy', PGP, "            for sig in reversed(self._signatures):\n                ops = sig.make_onepass()\n", "            for sig in reversed(list(self._signatures)):\n                ops = sig.make_onepass()\n")
+M('C20', 'trailing-sigs-yield-from-reversed', PGP, "            for sig in self._signatures:\n                yield sig\n\n    def __or__(self, other):\n        if isinstance(other, Marker):", "            yield from reversed(self._signatures)\n\n    def __or__(self, other):\n        if isinstance(other, Marker):", 'C20.2')
+M('C20', 'flag-dropped', PGP, "                if sig is self._signatures[0]:\n                    ops.nested = True\n                yield ops", "                yield ops", 'C20.4')
+T('C14', 'twin-export-extend', PGP, KEYSIGS, "        for sig in iter(s for s in self._signatures if not s.embedded and s.exportable):\n            _bytes.extend(sig.__bytearray__())\n")
+T('C14', 'twin-stream-inlined', PGP, TRUST + "\n        def pktgrouper():", "        def pktgrouper():",
+  more=[(PGP, "itertools.groupby(getpkt, key=pktgrouper())", "itertools.groupby(filter(lambda p: p.header.tag != PacketTag.Trust, iter(functools.partial(_getpkt, data), None)), key=pktgrouper())")])
+T('C14', 'twin-copy-binary-or', PGP, "        for uid in self._uids:\n            key |= copy.copy(uid)\n", "        for uid in self._uids:\n            key = key | copy.copy(uid)\n")
+T('C20', 'twin-new-option-bool', PGP, "        sensitive = kwargs.pop('sensitive', False)\n", "        sensitive = bool(kwargs.pop('sensitive', False))\n")
+T('C14', 'twin-grouper-closure', PGP, "        def pktgrouper():\n            class PktGrouper(object):\n                def __init__(self):\n                    self.last = None\n\n                def __call__(self, pkt):\n" + GROUPER + "            return PktGrouper()\n",
+  "        grouplabel = [None]\n\n        def grouper(pkt):\n            if pkt.header.tag != PacketTag.Signature:\n                grouplabel[0] = '{:02X}_{:s}'.format(id(pkt), pkt.__class__.__name__)\n            return grouplabel[0]\n",
+  more=[(PGP, "itertools.groupby(getpkt, key=pktgrouper())", "itertools.groupby(getpkt, key=grouper)")])
+M('C14', 'grouper-closure-every-packet', PGP, "        def pktgrouper():\n            class PktGrouper(object):\n                def __init__(self):\n                    self.last = None\n\n                def __call__(self, pkt):\n" + GROUPER + "            return PktGrouper()\n",
+  "        grouplabel = [None]\n\n        def grouper(pkt):\n            grouplabel[0] = '{:02X}_{:s}'.format(id(pkt), pkt.__class__.__name__)\n            return grouplabel[0]\n", 'C14.3',
+  more=[(PGP, "itertools.groupby(getpkt, key=pktgrouper())", "itertools.groupby(getpkt, key=grouper)")])
+T('C14', 'twin-copy-chained', PGP, "        for uid in self._uids:\n            key |= copy.copy(uid)\n\n        for id, subkey in self._children.items():\n            key |= copy.copy(subkey)\n",
+  "        for part in itertools.chain(self._uids, self._children.values()):\n            key |= copy.copy(part)\n")
+T('C14', 'twin-export-helper-filter', PGP, UIDSIGS, "            for s in self._exportable_only(uid._signatures):\n                _bytes += s.__bytearray__()\n",
+  more=[(PGP, "    def __bytearray__(self):\n        _bytes = bytearray()\n        # us\n", "    @staticmethod\n    def _exportable_only(sigs):\n        return [s for s in sigs if s.exportable]\n\n    def __bytearray__(self):\n        _bytes = bytearray()\n        # us\n")])
+M('C14', 'copy-chained-without-subkeys', PGP, "        for uid in self._uids:\n            key |= copy.copy(uid)\n\n        for id, subkey in self._children.items():\n            key |= copy.copy(subkey)\n",
+  "        for part in itertools.chain(self._uids):\n            key |= copy.copy(part)\n", 'C14.4')
+T('C14', 'twin-copy-subkeys-by-keyid', PGP, "        for id, subkey in self._children.items():\n            key |= copy.copy(subkey)\n", "        for keyid in self._children:\n            key |= copy.copy(self._children[keyid])\n")
+M('C14', 'copy-subkey-ids-instead-of-subkeys', PGP, "        for id, subkey in self._children.items():\n            key |= copy.copy(subkey)\n", "        for subkey in self._children:\n            key |= copy.copy(subkey)\n", 'C14.4')
+T('C14', 'twin-export-subkeys-by-keyid', PGP, "        for sk in self._children.values():\n            _bytes += sk.__bytearray__()\n\n        return _bytes",
+  "        for keyid in self._children:\n            _bytes += self._children[keyid].__bytearray__()\n\n        return _bytes")
+M('C14', 'export-first-subkey-only', PGP, "        for sk in self._children.values():\n            _bytes += sk.__bytearray__()\n\n        return _bytes",
+  "        for sk in list(self._children.values())[:1]:\n            _bytes += sk.__bytearray__()\n\n        return _bytes", 'C14.1')
+
+# ---- held-out wave (C14-ref6, C20-ref5, C20-ref6)
+T('C14', 'twin-grouper-class-attribute', PGP, "        def pktgrouper():\n            class PktGrouper(object):\n                def __init__(self):\n                    self.last = None\n\n                def __call__(self, pkt):\n" + GROUPER + "            return PktGrouper()\n", "",
+  more=[(PGP, "itertools.groupby(getpkt, key=pktgrouper())", "itertools.groupby(getpkt, key=self._PktGrouper())"),
+        (PGP, "    def parse(self, data):\n        unarmored = self.ascii_unarmor(data)\n        data = unarmored['body']\n\n        if unarmored['magic'] is not None and 'KEY' not in unarmored['magic']:",
+         "    class _PktGrouper(object):\n        def __init__(self):\n            self.last = None\n\n        def __call__(self, pkt):\n            if pkt.header.tag != PacketTag.Signature:\n                self.last = '{:02X}_{:s}'.format(id(pkt), pkt.__class__.__name__)\n            return self.last\n\n"
+         "    def parse(self, data):\n        unarmored = self.ascii_unarmor(data)\n        data = unarmored['body']\n\n        if unarmored['magic'] is not None and 'KEY' not in unarmored['magic']:")])
+M('C14', 'grouper-class-attribute-splits-on-all', PGP, "        def pktgrouper():\n            class PktGrouper(object):\n                def __init__(self):\n                    self.last = None\n\n                def __call__(self, pkt):\n" + GROUPER + "            return PktGrouper()\n", "", 'C14.3',
+  more=[(PGP, "itertools.groupby(getpkt, key=pktgrouper())", "itertools.groupby(getpkt, key=self._PktGrouper())"),
+        (PGP, "    def parse(self, data):\n        unarmored = self.ascii_unarmor(data)\n        data = unarmored['body']\n\n        if unarmored['magic'] is not None and 'KEY' not in unarmored['magic']:",
+         "    class _PktGrouper(object):\n        def __init__(self):\n            self.last = None\n\n        def __call__(self, pkt):\n            if pkt.header.tag != PacketTag.Trust:\n                self.last = '{:02X}_{:s}'.format(id(pkt), pkt.__class__.__name__)\n            return self.last\n\n"
+         "    def parse(self, data):\n        unarmored = self.ascii_unarmor(data)\n        data = unarmored['body']\n\n        if unarmored['magic'] is not None and 'KEY' not in unarmored['magic']:")])
+T('C20', 'twin-all-yield-from', PGP, "            for sig in self._signatures:\n                yield sig\n            for pkt in self._sessionkeys:\n                yield pkt\n            yield self.message\n",
+  "            yield from self._signatures\n            yield from self._sessionkeys\n            yield self.message\n")
+M('C20', 'yield-from-sessionkeys-after-container', PGP, "            for sig in self._signatures:\n                yield sig\n            for pkt in self._sessionkeys:\n                yield pkt\n            yield self.message\n",
+  "            yield from self._signatures\n            yield self.message\n            yield from self._sessionkeys\n", 'C20.1')
+T('C20', 'twin-ops-flag-operands-swapped', PK, "        self.nested = (packet[0] == 1)\n", "        self.nested = (1 == packet[0])\n")
+M('C20', 'ops-reader-flag-two', PK, "        self.nested = (packet[0] == 1)\n", "        self.nested = (2 == packet[0])\n", 'C20.6')
